@@ -1,0 +1,1031 @@
+//go:build verif
+
+// Contracts for the deductive verifier in /verif (govc). This file contains no code: with the
+// build tag off it is not part of the package, with it on it adds nothing to the build.
+package keeper
+
+//@ import sdk "github.com/cosmos/cosmos-sdk/types"
+//@ import big "math/big"
+//@ import common "github.com/ethereum/go-ethereum/common"
+//@ import corevm "github.com/ethereum/go-ethereum/core/vm"
+//@ import cpctypes "github.com/EscanBE/evermint/v12/x/cpc/types"
+//@ import abi "github.com/EscanBE/evermint/v12/x/cpc/abi"
+
+// ---------------------------------------------------------------------------------------------
+// Executor metadata (C12). Every executor declares constants: its selector, its gas and whether it is read-only.
+// C12 clause (c): a state-changing method (ReadOnly() == false) charges non-zero gas — visible in the pairs below and
+// enforced again by the fork's CustomPrecompiledContractMethod.Validate (depspecs/core_vm_evermint.spec).
+// ---------------------------------------------------------------------------------------------
+
+//@ func (e erc20CustomPrecompiledContractRoName) ReadOnly() bool
+//@   modifies nothing
+//@   ensures[C12.read_only_flag] result == true
+//@   panics never
+//@ func (e erc20CustomPrecompiledContractRoName) RequireGas() uint64
+//@   modifies nothing
+//@   ensures[C12.gas_constant] result == 0
+//@   panics never
+//@ func (e erc20CustomPrecompiledContractRoName) Method4BytesSignatures() []byte
+//@   modifies nothing
+//@   ensures[C12.selector] len(result) == 4 && result[0] == 6 && result[1] == 253 && result[2] == 222 && result[3] == 3
+//@   panics never
+
+//@ func (e erc20CustomPrecompiledContractRoSymbol) ReadOnly() bool
+//@   modifies nothing
+//@   ensures[C12.read_only_flag] result == true
+//@   panics never
+//@ func (e erc20CustomPrecompiledContractRoSymbol) RequireGas() uint64
+//@   modifies nothing
+//@   ensures[C12.gas_constant] result == 0
+//@   panics never
+//@ func (e erc20CustomPrecompiledContractRoSymbol) Method4BytesSignatures() []byte
+//@   modifies nothing
+//@   ensures[C12.selector] len(result) == 4 && result[0] == 149 && result[1] == 216 && result[2] == 155 && result[3] == 65
+//@   panics never
+
+//@ func (e erc20CustomPrecompiledContractRoDecimals) ReadOnly() bool
+//@   modifies nothing
+//@   ensures[C12.read_only_flag] result == true
+//@   panics never
+//@ func (e erc20CustomPrecompiledContractRoDecimals) RequireGas() uint64
+//@   modifies nothing
+//@   ensures[C12.gas_constant] result == 0
+//@   panics never
+//@ func (e erc20CustomPrecompiledContractRoDecimals) Method4BytesSignatures() []byte
+//@   modifies nothing
+//@   ensures[C12.selector] len(result) == 4 && result[0] == 49 && result[1] == 60 && result[2] == 229 && result[3] == 103
+//@   panics never
+
+//@ func (e erc20CustomPrecompiledContractRoTotalSupply) ReadOnly() bool
+//@   modifies nothing
+//@   ensures[C12.read_only_flag] result == true
+//@   panics never
+//@ func (e erc20CustomPrecompiledContractRoTotalSupply) RequireGas() uint64
+//@   modifies nothing
+//@   ensures[C12.gas_constant] result == 1000
+//@   panics never
+//@ func (e erc20CustomPrecompiledContractRoTotalSupply) Method4BytesSignatures() []byte
+//@   modifies nothing
+//@   ensures[C12.selector] len(result) == 4 && result[0] == 24 && result[1] == 22 && result[2] == 13 && result[3] == 221
+//@   panics never
+
+//@ func (e erc20CustomPrecompiledContractRoBalanceOf) ReadOnly() bool
+//@   modifies nothing
+//@   ensures[C12.read_only_flag] result == true
+//@   panics never
+//@ func (e erc20CustomPrecompiledContractRoBalanceOf) RequireGas() uint64
+//@   modifies nothing
+//@   ensures[C12.gas_constant] result == 1000
+//@   panics never
+//@ func (e erc20CustomPrecompiledContractRoBalanceOf) Method4BytesSignatures() []byte
+//@   modifies nothing
+//@   ensures[C12.selector] len(result) == 4 && result[0] == 112 && result[1] == 160 && result[2] == 130 && result[3] == 49
+//@   panics never
+
+//@ func (e erc20CustomPrecompiledContractRwTransferFrom) ReadOnly() bool
+//@   modifies nothing
+//@   ensures[C12.read_only_flag] result == false
+//@   panics never
+//@ func (e erc20CustomPrecompiledContractRwTransferFrom) RequireGas() uint64
+//@   modifies nothing
+//@   ensures[C12.gas_constant] result == 15000
+//@   panics never
+//@ func (e erc20CustomPrecompiledContractRwTransferFrom) Method4BytesSignatures() []byte
+//@   modifies nothing
+//@   ensures[C12.selector] len(result) == 4 && result[0] == 35 && result[1] == 184 && result[2] == 114 && result[3] == 221
+//@   panics never
+
+//@ func (e erc20CustomPrecompiledContractRwTransfer) ReadOnly() bool
+//@   modifies nothing
+//@   ensures[C12.read_only_flag] result == false
+//@   panics never
+//@ func (e erc20CustomPrecompiledContractRwTransfer) RequireGas() uint64
+//@   modifies nothing
+//@   ensures[C12.gas_constant] result == 15000
+//@   panics never
+//@ func (e erc20CustomPrecompiledContractRwTransfer) Method4BytesSignatures() []byte
+//@   modifies nothing
+//@   ensures[C12.selector] len(result) == 4 && result[0] == 169 && result[1] == 5 && result[2] == 156 && result[3] == 187
+//@   panics never
+
+//@ func (e erc20CustomPrecompiledContractRwApprove) ReadOnly() bool
+//@   modifies nothing
+//@   ensures[C12.read_only_flag] result == false
+//@   panics never
+//@ func (e erc20CustomPrecompiledContractRwApprove) RequireGas() uint64
+//@   modifies nothing
+//@   ensures[C12.gas_constant] result == 30000
+//@   panics never
+//@ func (e erc20CustomPrecompiledContractRwApprove) Method4BytesSignatures() []byte
+//@   modifies nothing
+//@   ensures[C12.selector] len(result) == 4 && result[0] == 9 && result[1] == 94 && result[2] == 167 && result[3] == 179
+//@   panics never
+
+//@ func (e erc20CustomPrecompiledContractRoAllowance) ReadOnly() bool
+//@   modifies nothing
+//@   ensures[C12.read_only_flag] result == true
+//@   panics never
+//@ func (e erc20CustomPrecompiledContractRoAllowance) RequireGas() uint64
+//@   modifies nothing
+//@   ensures[C12.gas_constant] result == 1000
+//@   panics never
+//@ func (e erc20CustomPrecompiledContractRoAllowance) Method4BytesSignatures() []byte
+//@   modifies nothing
+//@   ensures[C12.selector] len(result) == 4 && result[0] == 221 && result[1] == 98 && result[2] == 237 && result[3] == 62
+//@   panics never
+
+//@ func (e erc20CustomPrecompiledContractRwBurnFrom) ReadOnly() bool
+//@   modifies nothing
+//@   ensures[C12.read_only_flag] result == false
+//@   panics never
+//@ func (e erc20CustomPrecompiledContractRwBurnFrom) RequireGas() uint64
+//@   modifies nothing
+//@   ensures[C12.gas_constant] result == 15000
+//@   panics never
+//@ func (e erc20CustomPrecompiledContractRwBurnFrom) Method4BytesSignatures() []byte
+//@   modifies nothing
+//@   ensures[C12.selector] len(result) == 4 && result[0] == 121 && result[1] == 204 && result[2] == 103 && result[3] == 144
+//@   panics never
+
+//@ func (e erc20CustomPrecompiledContractRwBurn) ReadOnly() bool
+//@   modifies nothing
+//@   ensures[C12.read_only_flag] result == false
+//@   panics never
+//@ func (e erc20CustomPrecompiledContractRwBurn) RequireGas() uint64
+//@   modifies nothing
+//@   ensures[C12.gas_constant] result == 15000
+//@   panics never
+//@ func (e erc20CustomPrecompiledContractRwBurn) Method4BytesSignatures() []byte
+//@   modifies nothing
+//@   ensures[C12.selector] len(result) == 4 && result[0] == 66 && result[1] == 150 && result[2] == 108 && result[3] == 104
+//@   panics never
+
+//@ func (e stakingCustomPrecompiledContractRoName) ReadOnly() bool
+//@   modifies nothing
+//@   ensures[C12.read_only_flag] result == true
+//@   panics never
+//@ func (e stakingCustomPrecompiledContractRoName) RequireGas() uint64
+//@   modifies nothing
+//@   ensures[C12.gas_constant] result == 0
+//@   panics never
+//@ func (e stakingCustomPrecompiledContractRoName) Method4BytesSignatures() []byte
+//@   modifies nothing
+//@   ensures[C12.selector] len(result) == 4 && result[0] == 6 && result[1] == 253 && result[2] == 222 && result[3] == 3
+//@   panics never
+
+//@ func (e stakingCustomPrecompiledContractRoSymbol) ReadOnly() bool
+//@   modifies nothing
+//@   ensures[C12.read_only_flag] result == true
+//@   panics never
+//@ func (e stakingCustomPrecompiledContractRoSymbol) RequireGas() uint64
+//@   modifies nothing
+//@   ensures[C12.gas_constant] result == 0
+//@   panics never
+//@ func (e stakingCustomPrecompiledContractRoSymbol) Method4BytesSignatures() []byte
+//@   modifies nothing
+//@   ensures[C12.selector] len(result) == 4 && result[0] == 149 && result[1] == 216 && result[2] == 155 && result[3] == 65
+//@   panics never
+
+//@ func (e stakingCustomPrecompiledContractRoDecimals) ReadOnly() bool
+//@   modifies nothing
+//@   ensures[C12.read_only_flag] result == true
+//@   panics never
+//@ func (e stakingCustomPrecompiledContractRoDecimals) RequireGas() uint64
+//@   modifies nothing
+//@   ensures[C12.gas_constant] result == 0
+//@   panics never
+//@ func (e stakingCustomPrecompiledContractRoDecimals) Method4BytesSignatures() []byte
+//@   modifies nothing
+//@   ensures[C12.selector] len(result) == 4 && result[0] == 49 && result[1] == 60 && result[2] == 229 && result[3] == 103
+//@   panics never
+
+//@ func (e stakingCustomPrecompiledContractRoDelegatedValidators) ReadOnly() bool
+//@   modifies nothing
+//@   ensures[C12.read_only_flag] result == true
+//@   panics never
+//@ func (e stakingCustomPrecompiledContractRoDelegatedValidators) RequireGas() uint64
+//@   modifies nothing
+//@   ensures[C12.gas_constant] result == 10000
+//@   panics never
+//@ func (e stakingCustomPrecompiledContractRoDelegatedValidators) Method4BytesSignatures() []byte
+//@   modifies nothing
+//@   ensures[C12.selector] len(result) == 4 && result[0] == 95 && result[1] == 219 && result[2] == 85 && result[3] == 13
+//@   panics never
+
+//@ func (e stakingCustomPrecompiledContractRoDelegationOf) ReadOnly() bool
+//@   modifies nothing
+//@   ensures[C12.read_only_flag] result == true
+//@   panics never
+//@ func (e stakingCustomPrecompiledContractRoDelegationOf) RequireGas() uint64
+//@   modifies nothing
+//@   ensures[C12.gas_constant] result == 10000
+//@   panics never
+//@ func (e stakingCustomPrecompiledContractRoDelegationOf) Method4BytesSignatures() []byte
+//@   modifies nothing
+//@   ensures[C12.selector] len(result) == 4 && result[0] == 98 && result[1] == 141 && result[2] == 165 && result[3] == 39
+//@   panics never
+
+//@ func (e stakingCustomPrecompiledContractRoTotalDelegationOf) ReadOnly() bool
+//@   modifies nothing
+//@   ensures[C12.read_only_flag] result == true
+//@   panics never
+//@ func (e stakingCustomPrecompiledContractRoTotalDelegationOf) RequireGas() uint64
+//@   modifies nothing
+//@   ensures[C12.gas_constant] result == 10000
+//@   panics never
+//@ func (e stakingCustomPrecompiledContractRoTotalDelegationOf) Method4BytesSignatures() []byte
+//@   modifies nothing
+//@   ensures[C12.selector] len(result) == 4 && result[0] == 162 && result[1] == 185 && result[2] == 21 && result[3] == 226
+//@   panics never
+
+//@ func (e stakingCustomPrecompiledContractRoRewardOf) ReadOnly() bool
+//@   modifies nothing
+//@   ensures[C12.read_only_flag] result == true
+//@   panics never
+//@ func (e stakingCustomPrecompiledContractRoRewardOf) RequireGas() uint64
+//@   modifies nothing
+//@   ensures[C12.gas_constant] result == 10000
+//@   panics never
+//@ func (e stakingCustomPrecompiledContractRoRewardOf) Method4BytesSignatures() []byte
+//@   modifies nothing
+//@   ensures[C12.selector] len(result) == 4 && result[0] == 71 && result[1] == 50 && result[2] == 170 && result[3] == 29
+//@   panics never
+
+//@ func (e stakingCustomPrecompiledContractRoRewardsOf) ReadOnly() bool
+//@   modifies nothing
+//@   ensures[C12.read_only_flag] result == true
+//@   panics never
+//@ func (e stakingCustomPrecompiledContractRoRewardsOf) RequireGas() uint64
+//@   modifies nothing
+//@   ensures[C12.gas_constant] result == 20000
+//@   panics never
+//@ func (e stakingCustomPrecompiledContractRoRewardsOf) Method4BytesSignatures() []byte
+//@   modifies nothing
+//@   ensures[C12.selector] len(result) == 4 && result[0] == 71 && result[1] == 155 && result[2] == 167 && result[3] == 174
+//@   panics never
+
+//@ func (e stakingCustomPrecompiledContractRwDelegate) ReadOnly() bool
+//@   modifies nothing
+//@   ensures[C12.read_only_flag] result == false
+//@   panics never
+//@ func (e stakingCustomPrecompiledContractRwDelegate) RequireGas() uint64
+//@   modifies nothing
+//@   ensures[C12.gas_constant] result == 300000
+//@   panics never
+//@ func (e stakingCustomPrecompiledContractRwDelegate) Method4BytesSignatures() []byte
+//@   modifies nothing
+//@   ensures[C12.selector] len(result) == 4 && result[0] == 2 && result[1] == 110 && result[2] == 64 && result[3] == 43
+//@   panics never
+
+//@ func (e stakingCustomPrecompiledContractRwUnDelegate) ReadOnly() bool
+//@   modifies nothing
+//@   ensures[C12.read_only_flag] result == false
+//@   panics never
+//@ func (e stakingCustomPrecompiledContractRwUnDelegate) RequireGas() uint64
+//@   modifies nothing
+//@   ensures[C12.gas_constant] result == 200000
+//@   panics never
+//@ func (e stakingCustomPrecompiledContractRwUnDelegate) Method4BytesSignatures() []byte
+//@   modifies nothing
+//@   ensures[C12.selector] len(result) == 4 && result[0] == 77 && result[1] == 153 && result[2] == 221 && result[3] == 22
+//@   panics never
+
+//@ func (e stakingCustomPrecompiledContractRwReDelegate) ReadOnly() bool
+//@   modifies nothing
+//@   ensures[C12.read_only_flag] result == false
+//@   panics never
+//@ func (e stakingCustomPrecompiledContractRwReDelegate) RequireGas() uint64
+//@   modifies nothing
+//@   ensures[C12.gas_constant] result == 500000
+//@   panics never
+//@ func (e stakingCustomPrecompiledContractRwReDelegate) Method4BytesSignatures() []byte
+//@   modifies nothing
+//@   ensures[C12.selector] len(result) == 4 && result[0] == 107 && result[1] == 216 && result[2] == 248 && result[3] == 4
+//@   panics never
+
+//@ func (e stakingCustomPrecompiledContractRwDelegateByActionMessage) ReadOnly() bool
+//@   modifies nothing
+//@   ensures[C12.read_only_flag] result == false
+//@   panics never
+//@ func (e stakingCustomPrecompiledContractRwDelegateByActionMessage) RequireGas() uint64
+//@   modifies nothing
+//@   ensures[C12.gas_constant] result == 700000
+//@   panics never
+//@ func (e stakingCustomPrecompiledContractRwDelegateByActionMessage) Method4BytesSignatures() []byte
+//@   modifies nothing
+//@   ensures[C12.selector] len(result) == 4 && result[0] == 215 && result[1] == 61 && result[2] == 132 && result[3] == 27
+//@   panics never
+
+//@ func (e stakingCustomPrecompiledContractRwWithdrawReward) ReadOnly() bool
+//@   modifies nothing
+//@   ensures[C12.read_only_flag] result == false
+//@   panics never
+//@ func (e stakingCustomPrecompiledContractRwWithdrawReward) RequireGas() uint64
+//@   modifies nothing
+//@   ensures[C12.gas_constant] result == 200000
+//@   panics never
+//@ func (e stakingCustomPrecompiledContractRwWithdrawReward) Method4BytesSignatures() []byte
+//@   modifies nothing
+//@   ensures[C12.selector] len(result) == 4 && result[0] == 184 && result[1] == 110 && result[2] == 50 && result[3] == 28
+//@   panics never
+
+//@ func (e stakingCustomPrecompiledContractRwWithdrawRewards) ReadOnly() bool
+//@   modifies nothing
+//@   ensures[C12.read_only_flag] result == false
+//@   panics never
+//@ func (e stakingCustomPrecompiledContractRwWithdrawRewards) RequireGas() uint64
+//@   modifies nothing
+//@   ensures[C12.gas_constant] result == 400000
+//@   panics never
+//@ func (e stakingCustomPrecompiledContractRwWithdrawRewards) Method4BytesSignatures() []byte
+//@   modifies nothing
+//@   ensures[C12.selector] len(result) == 4 && result[0] == 199 && result[1] == 184 && result[2] == 152 && result[3] == 28
+//@   panics never
+
+//@ func (e stakingCustomPrecompiledContractRwWithdrawRewardsByMessage) ReadOnly() bool
+//@   modifies nothing
+//@   ensures[C12.read_only_flag] result == false
+//@   panics never
+//@ func (e stakingCustomPrecompiledContractRwWithdrawRewardsByMessage) RequireGas() uint64
+//@   modifies nothing
+//@   ensures[C12.gas_constant] result == 400000
+//@   panics never
+//@ func (e stakingCustomPrecompiledContractRwWithdrawRewardsByMessage) Method4BytesSignatures() []byte
+//@   modifies nothing
+//@   ensures[C12.selector] len(result) == 4 && result[0] == 75 && result[1] == 215 && result[2] == 1 && result[3] == 117
+//@   panics never
+
+//@ func (e stakingCustomPrecompiledContractRoBalanceOf) ReadOnly() bool
+//@   modifies nothing
+//@   ensures[C12.read_only_flag] result == true
+//@   panics never
+//@ func (e stakingCustomPrecompiledContractRoBalanceOf) RequireGas() uint64
+//@   modifies nothing
+//@   ensures[C12.gas_constant] result == 20000
+//@   panics never
+//@ func (e stakingCustomPrecompiledContractRoBalanceOf) Method4BytesSignatures() []byte
+//@   modifies nothing
+//@   ensures[C12.selector] len(result) == 4 && result[0] == 112 && result[1] == 160 && result[2] == 130 && result[3] == 49
+//@   panics never
+
+//@ func (e stakingCustomPrecompiledContractRwTransfer) ReadOnly() bool
+//@   modifies nothing
+//@   ensures[C12.read_only_flag] result == false
+//@   panics never
+//@ func (e stakingCustomPrecompiledContractRwTransfer) RequireGas() uint64
+//@   modifies nothing
+//@   ensures[C12.gas_constant] result == 800000
+//@   panics never
+//@ func (e stakingCustomPrecompiledContractRwTransfer) Method4BytesSignatures() []byte
+//@   modifies nothing
+//@   ensures[C12.selector] len(result) == 4 && result[0] == 169 && result[1] == 5 && result[2] == 156 && result[3] == 187
+//@   panics never
+
+//@ func (e bech32CustomPrecompiledContractRoEncodeAddress) ReadOnly() bool
+//@   modifies nothing
+//@   ensures[C12.read_only_flag] result == true
+//@   panics never
+//@ func (e bech32CustomPrecompiledContractRoEncodeAddress) RequireGas() uint64
+//@   modifies nothing
+//@   ensures[C12.gas_constant] result == 30000
+//@   panics never
+//@ func (e bech32CustomPrecompiledContractRoEncodeAddress) Method4BytesSignatures() []byte
+//@   modifies nothing
+//@   ensures[C12.selector] len(result) == 4 && result[0] == 179 && result[1] == 97 && result[2] == 207 && result[3] == 239
+//@   panics never
+
+//@ func (e bech32CustomPrecompiledContractRoEncode32BytesAddress) ReadOnly() bool
+//@   modifies nothing
+//@   ensures[C12.read_only_flag] result == true
+//@   panics never
+//@ func (e bech32CustomPrecompiledContractRoEncode32BytesAddress) RequireGas() uint64
+//@   modifies nothing
+//@   ensures[C12.gas_constant] result == 60000
+//@   panics never
+//@ func (e bech32CustomPrecompiledContractRoEncode32BytesAddress) Method4BytesSignatures() []byte
+//@   modifies nothing
+//@   ensures[C12.selector] len(result) == 4 && result[0] == 169 && result[1] == 75 && result[2] == 132 && result[3] == 179
+//@   panics never
+
+//@ func (e bech32CustomPrecompiledContractRoEncodeBytes) ReadOnly() bool
+//@   modifies nothing
+//@   ensures[C12.read_only_flag] result == true
+//@   panics never
+//@ func (e bech32CustomPrecompiledContractRoEncodeBytes) RequireGas() uint64
+//@   modifies nothing
+//@   ensures[C12.gas_constant] result == 200000
+//@   panics never
+//@ func (e bech32CustomPrecompiledContractRoEncodeBytes) Method4BytesSignatures() []byte
+//@   modifies nothing
+//@   ensures[C12.selector] len(result) == 4 && result[0] == 246 && result[1] == 224 && result[2] == 213 && result[3] == 3
+//@   panics never
+
+//@ func (e bech32CustomPrecompiledContractRoDecode) ReadOnly() bool
+//@   modifies nothing
+//@   ensures[C12.read_only_flag] result == true
+//@   panics never
+//@ func (e bech32CustomPrecompiledContractRoDecode) RequireGas() uint64
+//@   modifies nothing
+//@   ensures[C12.gas_constant] result == 200000
+//@   panics never
+//@ func (e bech32CustomPrecompiledContractRoDecode) Method4BytesSignatures() []byte
+//@   modifies nothing
+//@   ensures[C12.selector] len(result) == 4 && result[0] == 188 && result[1] == 66 && result[2] == 83 && result[3] == 127
+//@   panics never
+
+//@ func (e bech32CustomPrecompiledContractRoAccountAddrPrefix) ReadOnly() bool
+//@   modifies nothing
+//@   ensures[C12.read_only_flag] result == true
+//@   panics never
+//@ func (e bech32CustomPrecompiledContractRoAccountAddrPrefix) RequireGas() uint64
+//@   modifies nothing
+//@   ensures[C12.gas_constant] result == 5000
+//@   panics never
+//@ func (e bech32CustomPrecompiledContractRoAccountAddrPrefix) Method4BytesSignatures() []byte
+//@   modifies nothing
+//@   ensures[C12.selector] len(result) == 4 && result[0] == 150 && result[1] == 68 && result[2] == 59 && result[3] == 22
+//@   panics never
+
+//@ func (e bech32CustomPrecompiledContractRoValidatorAddrPrefix) ReadOnly() bool
+//@   modifies nothing
+//@   ensures[C12.read_only_flag] result == true
+//@   panics never
+//@ func (e bech32CustomPrecompiledContractRoValidatorAddrPrefix) RequireGas() uint64
+//@   modifies nothing
+//@   ensures[C12.gas_constant] result == 5000
+//@   panics never
+//@ func (e bech32CustomPrecompiledContractRoValidatorAddrPrefix) Method4BytesSignatures() []byte
+//@   modifies nothing
+//@   ensures[C12.selector] len(result) == 4 && result[0] == 128 && result[1] == 54 && result[2] == 178 && result[3] == 37
+//@   panics never
+
+//@ func (e bech32CustomPrecompiledContractRoConsensusAddrPrefix) ReadOnly() bool
+//@   modifies nothing
+//@   ensures[C12.read_only_flag] result == true
+//@   panics never
+//@ func (e bech32CustomPrecompiledContractRoConsensusAddrPrefix) RequireGas() uint64
+//@   modifies nothing
+//@   ensures[C12.gas_constant] result == 5000
+//@   panics never
+//@ func (e bech32CustomPrecompiledContractRoConsensusAddrPrefix) Method4BytesSignatures() []byte
+//@   modifies nothing
+//@   ensures[C12.selector] len(result) == 4 && result[0] == 136 && result[1] == 51 && result[2] == 61 && result[3] == 230
+//@   panics never
+
+//@ func (e bech32CustomPrecompiledContractRoAccountPubPrefix) ReadOnly() bool
+//@   modifies nothing
+//@   ensures[C12.read_only_flag] result == true
+//@   panics never
+//@ func (e bech32CustomPrecompiledContractRoAccountPubPrefix) RequireGas() uint64
+//@   modifies nothing
+//@   ensures[C12.gas_constant] result == 5000
+//@   panics never
+//@ func (e bech32CustomPrecompiledContractRoAccountPubPrefix) Method4BytesSignatures() []byte
+//@   modifies nothing
+//@   ensures[C12.selector] len(result) == 4 && result[0] == 118 && result[1] == 92 && result[2] == 157 && result[3] == 146
+//@   panics never
+
+//@ func (e bech32CustomPrecompiledContractRoValidatorPubPrefix) ReadOnly() bool
+//@   modifies nothing
+//@   ensures[C12.read_only_flag] result == true
+//@   panics never
+//@ func (e bech32CustomPrecompiledContractRoValidatorPubPrefix) RequireGas() uint64
+//@   modifies nothing
+//@   ensures[C12.gas_constant] result == 5000
+//@   panics never
+//@ func (e bech32CustomPrecompiledContractRoValidatorPubPrefix) Method4BytesSignatures() []byte
+//@   modifies nothing
+//@   ensures[C12.selector] len(result) == 4 && result[0] == 115 && result[1] == 116 && result[2] == 203 && result[3] == 145
+//@   panics never
+
+//@ func (e bech32CustomPrecompiledContractRoConsensusPubPrefix) ReadOnly() bool
+//@   modifies nothing
+//@   ensures[C12.read_only_flag] result == true
+//@   panics never
+//@ func (e bech32CustomPrecompiledContractRoConsensusPubPrefix) RequireGas() uint64
+//@   modifies nothing
+//@   ensures[C12.gas_constant] result == 5000
+//@   panics never
+//@ func (e bech32CustomPrecompiledContractRoConsensusPubPrefix) Method4BytesSignatures() []byte
+//@   modifies nothing
+//@   ensures[C12.selector] len(result) == 4 && result[0] == 42 && result[1] == 153 && result[2] == 195 && result[3] == 66
+//@   panics never
+
+// the stub for methods that a protocol version does not support: read-only as configured; a non-read-only stub costs gas
+//@ func (n notSupportedCustomPrecompiledContractMethodExecutor) ReadOnly() bool
+//@   modifies nothing
+//@   ensures[C12.read_only_flag] result == n.readOnly
+//@   panics never
+//@ func (n notSupportedCustomPrecompiledContractMethodExecutor) RequireGas() uint64
+//@   modifies nothing
+//@   ensures[C12.gas_constant] result == (n.readOnly ? 0 : 2) && (!n.readOnly ==> result > 0)
+//@   panics never
+//@ func (n notSupportedCustomPrecompiledContractMethodExecutor) Execute(caller corevm.ContractRef, contractAddress common.Address, input []byte, env cpcExecutorEnv) (ret []byte, err error)
+//@   modifies nothing
+//@   ensures[C12.stub_never_succeeds] err != nil
+//@   panics never
+
+// ---------------------------------------------------------------------------------------------
+// precompiles_erc20.go — allowance table (C10). View: cpcAllow(kvHas[id], kvVal[id], owner, spender) with
+// id = kvId(layer(ctx), payload(k.storeKey)), the module store seen through ctx's layer (absent entry == 0).
+// ---------------------------------------------------------------------------------------------
+
+//@ func (k Keeper) GetErc20CpcAllowance(ctx sdk.Context, owner, spender common.Address) *big.Int
+//@   requires k.storeKey != nil
+//@   modifies nothing
+//@   ensures[C10.allow_get] result != nil && fresh(result) && bigval[result] == cpcAllow(kvHas[kvId(layer(ctx), payload(k.storeKey))], kvVal[kvId(layer(ctx), payload(k.storeKey))], owner, spender)
+//@   panics never
+
+// Sets exactly one entry: the store is unchanged except at the key of (owner, spender); a zero allowance deletes the entry.
+//@ func (k Keeper) SetErc20CpcAllowance(ctx sdk.Context, owner, spender common.Address, allowance *big.Int)
+//@   requires k.storeKey != nil && allowance != nil
+//@   modifies kvHas[kvId(layer(ctx), payload(k.storeKey))], kvVal[kvId(layer(ctx), payload(k.storeKey))]
+//@   ensures[C10.allow_set] cpcAllow(kvHas[kvId(layer(ctx), payload(k.storeKey))], kvVal[kvId(layer(ctx), payload(k.storeKey))], owner, spender) == bigval[allowance]
+//@   ensures[C10.allow_set_frame] kvHas[kvId(layer(ctx), payload(k.storeKey))] == old(kvHas[kvId(layer(ctx), payload(k.storeKey))])[allowKeyB(owner, spender) := bigval[allowance] != 0] && kvVal[kvId(layer(ctx), payload(k.storeKey))] == old(kvVal[kvId(layer(ctx), payload(k.storeKey))])[allowKeyB(owner, spender) := kvVal[kvId(layer(ctx), payload(k.storeKey))][allowKeyB(owner, spender)]]
+//@   panics[C10.allow_set_range] iff bigval[allowance] < 0 || bigval[allowance] >= pow2(256)
+
+// ---------------------------------------------------------------------------------------------
+// precompiles_erc20.go — the ERC-20 contract object and its typed metadata
+// ---------------------------------------------------------------------------------------------
+
+// D: the bank denomination of an ERC-20 precompile = "min_denom" of the JSON document in its metadata record
+//@ ghost func erc20Denom(typedMeta string) string = jsonErc20MinDenom(strBytes(typedMeta))
+
+// GetErc20Metadata decodes the typed metadata (cached after the first call). Object invariant of the cache
+// (established by NewErc20CustomPrecompiledContract: cache == nil; preserved by every method): a cached record is the
+// decoded one.
+//@ func (m *erc20CustomPrecompiledContract) GetErc20Metadata() (meta cpctypes.Erc20CustomPrecompiledContractMeta)
+//@   requires m != nil
+//@   requires (m.cacheErc20Metadata != nil ==> (m.cacheErc20Metadata.MinDenom == erc20Denom(m.metadata.TypedMeta) && m.cacheErc20Metadata.Symbol == jsonErc20Symbol(strBytes(m.metadata.TypedMeta)) && m.cacheErc20Metadata.Decimals == jsonErc20Decimals(strBytes(m.metadata.TypedMeta))))
+//@   modifies m.cacheErc20Metadata
+//@   ensures[C10.denom_of_metadata] meta.MinDenom == erc20Denom(m.metadata.TypedMeta) && meta.Symbol == jsonErc20Symbol(strBytes(m.metadata.TypedMeta)) && meta.Decimals == jsonErc20Decimals(strBytes(m.metadata.TypedMeta))
+//@   ensures m.cacheErc20Metadata != nil && (m.cacheErc20Metadata.MinDenom == erc20Denom(m.metadata.TypedMeta) && m.cacheErc20Metadata.Symbol == jsonErc20Symbol(strBytes(m.metadata.TypedMeta)) && m.cacheErc20Metadata.Decimals == jsonErc20Decimals(strBytes(m.metadata.TypedMeta)))
+//@   panics only_if !jsonErc20Ok(strBytes(m.metadata.TypedMeta))
+
+// spendAllowance (C10): an unlimited allowance (2^256-1) is never decremented; any other is reduced by exactly the
+// amount or, when insufficient, the call fails with the table untouched. Nothing but the entry (owner, spender) changes.
+//@ func (e erc20CustomPrecompiledContractRwTransferFrom) spendAllowance(ctx sdk.Context, owner, spender common.Address, amount *big.Int) (err error)
+//@   requires e.contract != nil && e.contract.keeper.storeKey != nil && amount != nil && bigval[amount] >= 0
+//@   modifies kvHas[kvId(layer(ctx), payload(e.contract.keeper.storeKey))], kvVal[kvId(layer(ctx), payload(e.contract.keeper.storeKey))]
+//@   ensures[C10.infinite_kept] old(cpcAllow(kvHas[kvId(layer(ctx), payload(e.contract.keeper.storeKey))], kvVal[kvId(layer(ctx), payload(e.contract.keeper.storeKey))], owner, spender)) == pow2(256) - 1 ==> (err == nil && (kvHas[kvId(layer(ctx), payload(e.contract.keeper.storeKey))] == old(kvHas[kvId(layer(ctx), payload(e.contract.keeper.storeKey))]) && kvVal[kvId(layer(ctx), payload(e.contract.keeper.storeKey))] == old(kvVal[kvId(layer(ctx), payload(e.contract.keeper.storeKey))])))
+//@   ensures[C10.spend_exact] (old(cpcAllow(kvHas[kvId(layer(ctx), payload(e.contract.keeper.storeKey))], kvVal[kvId(layer(ctx), payload(e.contract.keeper.storeKey))], owner, spender)) != pow2(256) - 1 && bigval[amount] <= old(cpcAllow(kvHas[kvId(layer(ctx), payload(e.contract.keeper.storeKey))], kvVal[kvId(layer(ctx), payload(e.contract.keeper.storeKey))], owner, spender))) ==> (err == nil && cpcAllow(kvHas[kvId(layer(ctx), payload(e.contract.keeper.storeKey))], kvVal[kvId(layer(ctx), payload(e.contract.keeper.storeKey))], owner, spender) == old(cpcAllow(kvHas[kvId(layer(ctx), payload(e.contract.keeper.storeKey))], kvVal[kvId(layer(ctx), payload(e.contract.keeper.storeKey))], owner, spender)) - bigval[amount])
+//@   ensures[C10.spend_insufficient] (old(cpcAllow(kvHas[kvId(layer(ctx), payload(e.contract.keeper.storeKey))], kvVal[kvId(layer(ctx), payload(e.contract.keeper.storeKey))], owner, spender)) != pow2(256) - 1 && bigval[amount] > old(cpcAllow(kvHas[kvId(layer(ctx), payload(e.contract.keeper.storeKey))], kvVal[kvId(layer(ctx), payload(e.contract.keeper.storeKey))], owner, spender))) ==> (err != nil && (kvHas[kvId(layer(ctx), payload(e.contract.keeper.storeKey))] == old(kvHas[kvId(layer(ctx), payload(e.contract.keeper.storeKey))]) && kvVal[kvId(layer(ctx), payload(e.contract.keeper.storeKey))] == old(kvVal[kvId(layer(ctx), payload(e.contract.keeper.storeKey))])))
+//@   ensures[C10.spend_frame] (kvHas[kvId(layer(ctx), payload(e.contract.keeper.storeKey))] == old(kvHas[kvId(layer(ctx), payload(e.contract.keeper.storeKey))])[allowKeyB(owner, spender) := kvHas[kvId(layer(ctx), payload(e.contract.keeper.storeKey))][allowKeyB(owner, spender)]] && kvVal[kvId(layer(ctx), payload(e.contract.keeper.storeKey))] == old(kvVal[kvId(layer(ctx), payload(e.contract.keeper.storeKey))])[allowKeyB(owner, spender) := kvVal[kvId(layer(ctx), payload(e.contract.keeper.storeKey))][allowKeyB(owner, spender)]])
+//@   panics[C10.spend_panics] only_if cpcAllow(kvHas[kvId(layer(ctx), payload(e.contract.keeper.storeKey))], kvVal[kvId(layer(ctx), payload(e.contract.keeper.storeKey))], owner, spender) >= pow2(256)
+
+// transfer (C10): with x = amount, D = the contract's denomination, moved = (from == to ? 0 : x):
+//  to != 0: from loses moved, to gains moved, supply unchanged;  to == 0 (burn): from loses moved, supply shrinks by moved;
+//  every other (address, denomination) is unchanged; exactly one Transfer log is appended; the allowance table is untouched
+//  (frame). A normal return with err == nil implies x <= balance(from).
+//@ func (e erc20CustomPrecompiledContractRwTransferFrom) transfer(ctx sdk.Context, from, to common.Address, amount *big.Int, contractAddr common.Address, stateDB corevm.StateDB) (ret []byte, err error)
+//@   requires e.contract != nil && e.contract.keeper.bankKeeper != nil && stateDB != nil && amount != nil
+//@   requires (e.contract.cacheErc20Metadata != nil ==> (e.contract.cacheErc20Metadata.MinDenom == erc20Denom(e.contract.metadata.TypedMeta) && e.contract.cacheErc20Metadata.Symbol == jsonErc20Symbol(strBytes(e.contract.metadata.TypedMeta)) && e.contract.cacheErc20Metadata.Decimals == jsonErc20Decimals(strBytes(e.contract.metadata.TypedMeta))))
+//@   modifies e.contract.cacheErc20Metadata, bankBal[layer(ctx)], bankSupply[layer(ctx)], authVersion[layer(ctx)], evlog[payload(ctx.EventManager())], sdbLogCount[payload(stateDB)], sdbLogAddr[payload(stateDB)], sdbLogNTopics[payload(stateDB)], sdbLogT0[payload(stateDB)], sdbLogT1[payload(stateDB)], sdbLogT2[payload(stateDB)], sdbLogT3[payload(stateDB)], sdbLogData[payload(stateDB)], sdbOther[payload(stateDB)]
+//@   ensures[C10.transfer_needs_balance] err == nil ==> (0 <= bigval[amount] && bigval[amount] <= old(bankBal[layer(ctx)][addrBytes(from)][erc20Denom(e.contract.metadata.TypedMeta)]))
+//@   ensures[C10.transfer_moves] (err == nil && to != zero(type(common.Address))) ==> (forall a bytes, d string :: bankBal[layer(ctx)][a][d] == old(bankBal[layer(ctx)][a][d]) - ((a == addrBytes(from) && d == erc20Denom(e.contract.metadata.TypedMeta) && from != to) ? bigval[amount] : 0) + ((a == addrBytes(to) && d == erc20Denom(e.contract.metadata.TypedMeta) && from != to) ? bigval[amount] : 0))
+//@   ensures[C10.transfer_supply_kept] (err == nil && to != zero(type(common.Address))) ==> bankSupply[layer(ctx)] == old(bankSupply[layer(ctx)])
+//@   ensures[C10.burn_moves] (err == nil && to == zero(type(common.Address))) ==> (forall a bytes, d string :: bankBal[layer(ctx)][a][d] == old(bankBal[layer(ctx)][a][d]) - ((a == addrBytes(from) && d == erc20Denom(e.contract.metadata.TypedMeta) && from != to) ? bigval[amount] : 0))
+//@   ensures[C10.burn_supply] (err == nil && to == zero(type(common.Address))) ==> (forall d string :: bankSupply[layer(ctx)][d] == old(bankSupply[layer(ctx)][d]) - ((d == erc20Denom(e.contract.metadata.TypedMeta) && from != to) ? bigval[amount] : 0))
+//@   ensures[C10.transfer_log] err == nil ==> (sdbLogCount[payload(stateDB)] == old(sdbLogCount[payload(stateDB)]) + 1 && sdbLogAddr[payload(stateDB)] == old(sdbLogAddr[payload(stateDB)])[old(sdbLogCount[payload(stateDB)]) := contractAddr] && sdbLogNTopics[payload(stateDB)] == old(sdbLogNTopics[payload(stateDB)])[old(sdbLogCount[payload(stateDB)]) := 3] && sdbLogT0[payload(stateDB)] == old(sdbLogT0[payload(stateDB)])[old(sdbLogCount[payload(stateDB)]) := common.HexToHash("0xddf252ad1be2c89b69c2b068fc378daa952ba7f163c4a11628f55a4df523b3ef")] && sdbLogT1[payload(stateDB)] == old(sdbLogT1[payload(stateDB)])[old(sdbLogCount[payload(stateDB)]) := hashOfBytes(addrBytes(from))] && sdbLogT2[payload(stateDB)] == old(sdbLogT2[payload(stateDB)])[old(sdbLogCount[payload(stateDB)]) := hashOfBytes(addrBytes(to))] && sdbLogData[payload(stateDB)] == old(sdbLogData[payload(stateDB)])[old(sdbLogCount[payload(stateDB)]) := hashBytes(hashOfBytes(beBytes(bigval[amount])))])
+//@   ensures[C10.transfer_fail_no_log] err != nil ==> (sdbLogCount[payload(stateDB)] == old(sdbLogCount[payload(stateDB)]) && sdbLogAddr[payload(stateDB)] == old(sdbLogAddr[payload(stateDB)]) && sdbLogNTopics[payload(stateDB)] == old(sdbLogNTopics[payload(stateDB)]) && sdbLogT0[payload(stateDB)] == old(sdbLogT0[payload(stateDB)]) && sdbLogT1[payload(stateDB)] == old(sdbLogT1[payload(stateDB)]) && sdbLogT2[payload(stateDB)] == old(sdbLogT2[payload(stateDB)]) && sdbLogT3[payload(stateDB)] == old(sdbLogT3[payload(stateDB)]) && sdbLogData[payload(stateDB)] == old(sdbLogData[payload(stateDB)]))
+//@   ensures[C10.transfer_returns_true] err == nil ==> (len(ret) == 32 && ret[31] == 1)
+//@   ensures e.contract.cacheErc20Metadata != nil && (e.contract.cacheErc20Metadata.MinDenom == erc20Denom(e.contract.metadata.TypedMeta) && e.contract.cacheErc20Metadata.Symbol == jsonErc20Symbol(strBytes(e.contract.metadata.TypedMeta)) && e.contract.cacheErc20Metadata.Decimals == jsonErc20Decimals(strBytes(e.contract.metadata.TypedMeta)))
+//@   panics[C10.transfer_panics] only_if !jsonErc20Ok(strBytes(e.contract.metadata.TypedMeta)) || bigval[amount] < 0 || !denomValid(erc20Denom(e.contract.metadata.TypedMeta)) || (to == zero(type(common.Address)) && (!modExists(cpctypes.ModuleName) || !modCanBurn(cpctypes.ModuleName)))
+
+// ---------------------------------------------------------------------------------------------
+// Execute of the state-changing ERC-20 methods (C10). c = caller.Address(); arguments are the ABI-decoded call data
+// (abiArgAddr / abiArgUint of bytes(input): x/cpc/abi/verif_contracts.go); D = erc20Denom(metadata.TypedMeta).
+// An error return states nothing about the layer (the interpreter reverts it: go-ethereum Call, assumed).
+// ---------------------------------------------------------------------------------------------
+
+// transferFrom(from, to, x): from and to are non-zero; the caller is from, or the allowance (from -> caller) is unlimited or
+// covers x and is reduced by exactly x; then the transfer law of `transfer`.
+//@ func (e erc20CustomPrecompiledContractRwTransferFrom) Execute(caller corevm.ContractRef, contractAddr common.Address, input []byte, env cpcExecutorEnv) (ret []byte, err error)
+//@   requires caller != nil && env.evm != nil && env.evm.StateDB != nil && e.contract != nil && e.contract.keeper.storeKey != nil && e.contract.keeper.bankKeeper != nil
+//@   requires (e.contract.cacheErc20Metadata != nil ==> (e.contract.cacheErc20Metadata.MinDenom == erc20Denom(e.contract.metadata.TypedMeta) && e.contract.cacheErc20Metadata.Symbol == jsonErc20Symbol(strBytes(e.contract.metadata.TypedMeta)) && e.contract.cacheErc20Metadata.Decimals == jsonErc20Decimals(strBytes(e.contract.metadata.TypedMeta))))
+//@   modifies e.contract.cacheErc20Metadata, kvHas[kvId(layer(env.ctx), payload(e.contract.keeper.storeKey))], kvVal[kvId(layer(env.ctx), payload(e.contract.keeper.storeKey))], bankBal[layer(env.ctx)], bankSupply[layer(env.ctx)], authVersion[layer(env.ctx)], evlog[payload(env.ctx.EventManager())], sdbLogCount[payload(env.evm.StateDB)], sdbLogAddr[payload(env.evm.StateDB)], sdbLogNTopics[payload(env.evm.StateDB)], sdbLogT0[payload(env.evm.StateDB)], sdbLogT1[payload(env.evm.StateDB)], sdbLogT2[payload(env.evm.StateDB)], sdbLogT3[payload(env.evm.StateDB)], sdbLogData[payload(env.evm.StateDB)], sdbOther[payload(env.evm.StateDB)]
+//@   ensures[C10.tf_nonzero_parties] err == nil ==> (abiArgAddr(bytes(input), 0) != zero(type(common.Address)) && abiArgAddr(bytes(input), 1) != zero(type(common.Address)))
+//@   ensures[C10.caller_or_allowance] (err == nil && abiArgAddr(bytes(input), 0) != caller.Address()) ==> ((old(cpcAllow(kvHas[kvId(layer(env.ctx), payload(e.contract.keeper.storeKey))], kvVal[kvId(layer(env.ctx), payload(e.contract.keeper.storeKey))], abiArgAddr(bytes(input), 0), caller.Address())) == pow2(256) - 1 && (kvHas[kvId(layer(env.ctx), payload(e.contract.keeper.storeKey))] == old(kvHas[kvId(layer(env.ctx), payload(e.contract.keeper.storeKey))]) && kvVal[kvId(layer(env.ctx), payload(e.contract.keeper.storeKey))] == old(kvVal[kvId(layer(env.ctx), payload(e.contract.keeper.storeKey))]))) || (old(cpcAllow(kvHas[kvId(layer(env.ctx), payload(e.contract.keeper.storeKey))], kvVal[kvId(layer(env.ctx), payload(e.contract.keeper.storeKey))], abiArgAddr(bytes(input), 0), caller.Address())) != pow2(256) - 1 && abiArgUint(bytes(input), 2) <= old(cpcAllow(kvHas[kvId(layer(env.ctx), payload(e.contract.keeper.storeKey))], kvVal[kvId(layer(env.ctx), payload(e.contract.keeper.storeKey))], abiArgAddr(bytes(input), 0), caller.Address())) && cpcAllow(kvHas[kvId(layer(env.ctx), payload(e.contract.keeper.storeKey))], kvVal[kvId(layer(env.ctx), payload(e.contract.keeper.storeKey))], abiArgAddr(bytes(input), 0), caller.Address()) == old(cpcAllow(kvHas[kvId(layer(env.ctx), payload(e.contract.keeper.storeKey))], kvVal[kvId(layer(env.ctx), payload(e.contract.keeper.storeKey))], abiArgAddr(bytes(input), 0), caller.Address())) - abiArgUint(bytes(input), 2)))
+//@   ensures[C10.tf_own_coins_no_allowance] (err == nil && abiArgAddr(bytes(input), 0) == caller.Address()) ==> (kvHas[kvId(layer(env.ctx), payload(e.contract.keeper.storeKey))] == old(kvHas[kvId(layer(env.ctx), payload(e.contract.keeper.storeKey))]) && kvVal[kvId(layer(env.ctx), payload(e.contract.keeper.storeKey))] == old(kvVal[kvId(layer(env.ctx), payload(e.contract.keeper.storeKey))]))
+//@   ensures[C10.tf_allowance_frame] (kvHas[kvId(layer(env.ctx), payload(e.contract.keeper.storeKey))] == old(kvHas[kvId(layer(env.ctx), payload(e.contract.keeper.storeKey))])[allowKeyB(abiArgAddr(bytes(input), 0), caller.Address()) := kvHas[kvId(layer(env.ctx), payload(e.contract.keeper.storeKey))][allowKeyB(abiArgAddr(bytes(input), 0), caller.Address())]] && kvVal[kvId(layer(env.ctx), payload(e.contract.keeper.storeKey))] == old(kvVal[kvId(layer(env.ctx), payload(e.contract.keeper.storeKey))])[allowKeyB(abiArgAddr(bytes(input), 0), caller.Address()) := kvVal[kvId(layer(env.ctx), payload(e.contract.keeper.storeKey))][allowKeyB(abiArgAddr(bytes(input), 0), caller.Address())]])
+//@   ensures[C10.tf_needs_balance] err == nil ==> abiArgUint(bytes(input), 2) <= old(bankBal[layer(env.ctx)][addrBytes(abiArgAddr(bytes(input), 0))][erc20Denom(e.contract.metadata.TypedMeta)])
+//@   ensures[C10.tf_moves] err == nil ==> ((forall a bytes, d string :: bankBal[layer(env.ctx)][a][d] == old(bankBal[layer(env.ctx)][a][d]) - ((a == addrBytes(abiArgAddr(bytes(input), 0)) && d == erc20Denom(e.contract.metadata.TypedMeta) && abiArgAddr(bytes(input), 0) != abiArgAddr(bytes(input), 1)) ? abiArgUint(bytes(input), 2) : 0) + ((a == addrBytes(abiArgAddr(bytes(input), 1)) && d == erc20Denom(e.contract.metadata.TypedMeta) && abiArgAddr(bytes(input), 0) != abiArgAddr(bytes(input), 1)) ? abiArgUint(bytes(input), 2) : 0)) && bankSupply[layer(env.ctx)] == old(bankSupply[layer(env.ctx)]))
+//@   ensures[C10.tf_log] err == nil ==> (sdbLogCount[payload(env.evm.StateDB)] == old(sdbLogCount[payload(env.evm.StateDB)]) + 1 && sdbLogAddr[payload(env.evm.StateDB)] == old(sdbLogAddr[payload(env.evm.StateDB)])[old(sdbLogCount[payload(env.evm.StateDB)]) := contractAddr] && sdbLogNTopics[payload(env.evm.StateDB)] == old(sdbLogNTopics[payload(env.evm.StateDB)])[old(sdbLogCount[payload(env.evm.StateDB)]) := 3] && sdbLogT0[payload(env.evm.StateDB)] == old(sdbLogT0[payload(env.evm.StateDB)])[old(sdbLogCount[payload(env.evm.StateDB)]) := common.HexToHash("0xddf252ad1be2c89b69c2b068fc378daa952ba7f163c4a11628f55a4df523b3ef")] && sdbLogT1[payload(env.evm.StateDB)] == old(sdbLogT1[payload(env.evm.StateDB)])[old(sdbLogCount[payload(env.evm.StateDB)]) := hashOfBytes(addrBytes(abiArgAddr(bytes(input), 0)))] && sdbLogT2[payload(env.evm.StateDB)] == old(sdbLogT2[payload(env.evm.StateDB)])[old(sdbLogCount[payload(env.evm.StateDB)]) := hashOfBytes(addrBytes(abiArgAddr(bytes(input), 1)))] && sdbLogData[payload(env.evm.StateDB)] == old(sdbLogData[payload(env.evm.StateDB)])[old(sdbLogCount[payload(env.evm.StateDB)]) := hashBytes(hashOfBytes(beBytes(abiArgUint(bytes(input), 2))))])
+//@   ensures[C10.tf_returns_true] err == nil ==> (len(ret) == 32 && ret[31] == 1)
+//@   ensures e.contract.cacheErc20Metadata != nil ==> (e.contract.cacheErc20Metadata.MinDenom == erc20Denom(e.contract.metadata.TypedMeta) && e.contract.cacheErc20Metadata.Symbol == jsonErc20Symbol(strBytes(e.contract.metadata.TypedMeta)) && e.contract.cacheErc20Metadata.Decimals == jsonErc20Decimals(strBytes(e.contract.metadata.TypedMeta)))
+//@   panics[C10.tf_panics] only_if len(input) < 4 || !abiSelectorOk("transferFrom", bytes(input)) || !jsonErc20Ok(strBytes(e.contract.metadata.TypedMeta)) || !denomValid(erc20Denom(e.contract.metadata.TypedMeta)) || cpcAllow(kvHas[kvId(layer(env.ctx), payload(e.contract.keeper.storeKey))], kvVal[kvId(layer(env.ctx), payload(e.contract.keeper.storeKey))], abiArgAddr(bytes(input), 0), caller.Address()) >= pow2(256)
+
+// transfer(to, x): moves the CALLER's coins only; the allowance table is untouched (frame).
+//@ func (e erc20CustomPrecompiledContractRwTransfer) Execute(caller corevm.ContractRef, contractAddr common.Address, input []byte, env cpcExecutorEnv) (ret []byte, err error)
+//@   requires caller != nil && env.evm != nil && env.evm.StateDB != nil && e.transferFrom.contract != nil && e.transferFrom.contract.keeper.storeKey != nil && e.transferFrom.contract.keeper.bankKeeper != nil
+//@   requires (e.transferFrom.contract.cacheErc20Metadata != nil ==> (e.transferFrom.contract.cacheErc20Metadata.MinDenom == erc20Denom(e.transferFrom.contract.metadata.TypedMeta) && e.transferFrom.contract.cacheErc20Metadata.Symbol == jsonErc20Symbol(strBytes(e.transferFrom.contract.metadata.TypedMeta)) && e.transferFrom.contract.cacheErc20Metadata.Decimals == jsonErc20Decimals(strBytes(e.transferFrom.contract.metadata.TypedMeta))))
+//@   modifies e.transferFrom.contract.cacheErc20Metadata, bankBal[layer(env.ctx)], bankSupply[layer(env.ctx)], authVersion[layer(env.ctx)], evlog[payload(env.ctx.EventManager())], sdbLogCount[payload(env.evm.StateDB)], sdbLogAddr[payload(env.evm.StateDB)], sdbLogNTopics[payload(env.evm.StateDB)], sdbLogT0[payload(env.evm.StateDB)], sdbLogT1[payload(env.evm.StateDB)], sdbLogT2[payload(env.evm.StateDB)], sdbLogT3[payload(env.evm.StateDB)], sdbLogData[payload(env.evm.StateDB)], sdbOther[payload(env.evm.StateDB)]
+//@   ensures[C10.t_nonzero_parties] err == nil ==> (caller.Address() != zero(type(common.Address)) && abiArgAddr(bytes(input), 0) != zero(type(common.Address)))
+//@   ensures[C10.t_needs_balance] err == nil ==> abiArgUint(bytes(input), 1) <= old(bankBal[layer(env.ctx)][addrBytes(caller.Address())][erc20Denom(e.transferFrom.contract.metadata.TypedMeta)])
+//@   ensures[C10.t_moves] err == nil ==> ((forall a bytes, d string :: bankBal[layer(env.ctx)][a][d] == old(bankBal[layer(env.ctx)][a][d]) - ((a == addrBytes(caller.Address()) && d == erc20Denom(e.transferFrom.contract.metadata.TypedMeta) && caller.Address() != abiArgAddr(bytes(input), 0)) ? abiArgUint(bytes(input), 1) : 0) + ((a == addrBytes(abiArgAddr(bytes(input), 0)) && d == erc20Denom(e.transferFrom.contract.metadata.TypedMeta) && caller.Address() != abiArgAddr(bytes(input), 0)) ? abiArgUint(bytes(input), 1) : 0)) && bankSupply[layer(env.ctx)] == old(bankSupply[layer(env.ctx)]))
+//@   ensures[C10.t_log] err == nil ==> (sdbLogCount[payload(env.evm.StateDB)] == old(sdbLogCount[payload(env.evm.StateDB)]) + 1 && sdbLogAddr[payload(env.evm.StateDB)] == old(sdbLogAddr[payload(env.evm.StateDB)])[old(sdbLogCount[payload(env.evm.StateDB)]) := contractAddr] && sdbLogNTopics[payload(env.evm.StateDB)] == old(sdbLogNTopics[payload(env.evm.StateDB)])[old(sdbLogCount[payload(env.evm.StateDB)]) := 3] && sdbLogT0[payload(env.evm.StateDB)] == old(sdbLogT0[payload(env.evm.StateDB)])[old(sdbLogCount[payload(env.evm.StateDB)]) := common.HexToHash("0xddf252ad1be2c89b69c2b068fc378daa952ba7f163c4a11628f55a4df523b3ef")] && sdbLogT1[payload(env.evm.StateDB)] == old(sdbLogT1[payload(env.evm.StateDB)])[old(sdbLogCount[payload(env.evm.StateDB)]) := hashOfBytes(addrBytes(caller.Address()))] && sdbLogT2[payload(env.evm.StateDB)] == old(sdbLogT2[payload(env.evm.StateDB)])[old(sdbLogCount[payload(env.evm.StateDB)]) := hashOfBytes(addrBytes(abiArgAddr(bytes(input), 0)))] && sdbLogData[payload(env.evm.StateDB)] == old(sdbLogData[payload(env.evm.StateDB)])[old(sdbLogCount[payload(env.evm.StateDB)]) := hashBytes(hashOfBytes(beBytes(abiArgUint(bytes(input), 1))))])
+//@   ensures[C10.t_returns_true] err == nil ==> (len(ret) == 32 && ret[31] == 1)
+//@   ensures e.transferFrom.contract.cacheErc20Metadata != nil ==> (e.transferFrom.contract.cacheErc20Metadata.MinDenom == erc20Denom(e.transferFrom.contract.metadata.TypedMeta) && e.transferFrom.contract.cacheErc20Metadata.Symbol == jsonErc20Symbol(strBytes(e.transferFrom.contract.metadata.TypedMeta)) && e.transferFrom.contract.cacheErc20Metadata.Decimals == jsonErc20Decimals(strBytes(e.transferFrom.contract.metadata.TypedMeta)))
+//@   panics[C10.t_panics] only_if len(input) < 4 || !abiSelectorOk("transfer", bytes(input)) || !jsonErc20Ok(strBytes(e.transferFrom.contract.metadata.TypedMeta)) || !denomValid(erc20Denom(e.transferFrom.contract.metadata.TypedMeta))
+
+// approve(spender, value): sets exactly the entry (caller, spender) to value; one Approval log; bank untouched (frame).
+//@ func (e erc20CustomPrecompiledContractRwApprove) Execute(caller corevm.ContractRef, contractAddr common.Address, input []byte, env cpcExecutorEnv) (ret []byte, err error)
+//@   requires caller != nil && env.evm != nil && env.evm.StateDB != nil && e.contract != nil && e.contract.keeper.storeKey != nil
+//@   modifies kvHas[kvId(layer(env.ctx), payload(e.contract.keeper.storeKey))], kvVal[kvId(layer(env.ctx), payload(e.contract.keeper.storeKey))], sdbLogCount[payload(env.evm.StateDB)], sdbLogAddr[payload(env.evm.StateDB)], sdbLogNTopics[payload(env.evm.StateDB)], sdbLogT0[payload(env.evm.StateDB)], sdbLogT1[payload(env.evm.StateDB)], sdbLogT2[payload(env.evm.StateDB)], sdbLogT3[payload(env.evm.StateDB)], sdbLogData[payload(env.evm.StateDB)], sdbOther[payload(env.evm.StateDB)]
+//@   ensures[C10.approve_nonzero_parties] err == nil ==> (caller.Address() != zero(type(common.Address)) && abiArgAddr(bytes(input), 0) != zero(type(common.Address)))
+//@   ensures[C10.approve_sets] err == nil ==> (cpcAllow(kvHas[kvId(layer(env.ctx), payload(e.contract.keeper.storeKey))], kvVal[kvId(layer(env.ctx), payload(e.contract.keeper.storeKey))], caller.Address(), abiArgAddr(bytes(input), 0)) == abiArgUint(bytes(input), 1) && kvHas[kvId(layer(env.ctx), payload(e.contract.keeper.storeKey))] == old(kvHas[kvId(layer(env.ctx), payload(e.contract.keeper.storeKey))])[allowKeyB(caller.Address(), abiArgAddr(bytes(input), 0)) := abiArgUint(bytes(input), 1) != 0])
+//@   ensures[C10.approve_frame] (kvHas[kvId(layer(env.ctx), payload(e.contract.keeper.storeKey))] == old(kvHas[kvId(layer(env.ctx), payload(e.contract.keeper.storeKey))])[allowKeyB(caller.Address(), abiArgAddr(bytes(input), 0)) := kvHas[kvId(layer(env.ctx), payload(e.contract.keeper.storeKey))][allowKeyB(caller.Address(), abiArgAddr(bytes(input), 0))]] && kvVal[kvId(layer(env.ctx), payload(e.contract.keeper.storeKey))] == old(kvVal[kvId(layer(env.ctx), payload(e.contract.keeper.storeKey))])[allowKeyB(caller.Address(), abiArgAddr(bytes(input), 0)) := kvVal[kvId(layer(env.ctx), payload(e.contract.keeper.storeKey))][allowKeyB(caller.Address(), abiArgAddr(bytes(input), 0))]])
+//@   ensures[C10.approve_log] err == nil ==> (sdbLogCount[payload(env.evm.StateDB)] == old(sdbLogCount[payload(env.evm.StateDB)]) + 1 && sdbLogAddr[payload(env.evm.StateDB)] == old(sdbLogAddr[payload(env.evm.StateDB)])[old(sdbLogCount[payload(env.evm.StateDB)]) := contractAddr] && sdbLogNTopics[payload(env.evm.StateDB)] == old(sdbLogNTopics[payload(env.evm.StateDB)])[old(sdbLogCount[payload(env.evm.StateDB)]) := 3] && sdbLogT0[payload(env.evm.StateDB)] == old(sdbLogT0[payload(env.evm.StateDB)])[old(sdbLogCount[payload(env.evm.StateDB)]) := common.HexToHash("0x8c5be1e5ebec7d5bd14f71427d1e84f3dd0314c0f7b2291e5b200ac8c7c3b925")] && sdbLogT1[payload(env.evm.StateDB)] == old(sdbLogT1[payload(env.evm.StateDB)])[old(sdbLogCount[payload(env.evm.StateDB)]) := hashOfBytes(addrBytes(caller.Address()))] && sdbLogT2[payload(env.evm.StateDB)] == old(sdbLogT2[payload(env.evm.StateDB)])[old(sdbLogCount[payload(env.evm.StateDB)]) := hashOfBytes(addrBytes(abiArgAddr(bytes(input), 0)))] && sdbLogData[payload(env.evm.StateDB)] == old(sdbLogData[payload(env.evm.StateDB)])[old(sdbLogCount[payload(env.evm.StateDB)]) := hashBytes(hashOfBytes(beBytes(abiArgUint(bytes(input), 1))))])
+//@   ensures[C10.approve_returns_true] err == nil ==> bytes(ret) == abiEncBool(true)
+//@   panics[C10.approve_panics] only_if len(input) < 4 || !abiSelectorOk("approve", bytes(input))
+
+// burnFrom(address, x): like transferFrom to the zero address: allowance rule, then the burn law.
+//@ func (e erc20CustomPrecompiledContractRwBurnFrom) Execute(caller corevm.ContractRef, contractAddr common.Address, input []byte, env cpcExecutorEnv) (ret []byte, err error)
+//@   requires caller != nil && env.evm != nil && env.evm.StateDB != nil && e.transferFrom.contract != nil && e.transferFrom.contract.keeper.storeKey != nil && e.transferFrom.contract.keeper.bankKeeper != nil
+//@   requires (e.transferFrom.contract.cacheErc20Metadata != nil ==> (e.transferFrom.contract.cacheErc20Metadata.MinDenom == erc20Denom(e.transferFrom.contract.metadata.TypedMeta) && e.transferFrom.contract.cacheErc20Metadata.Symbol == jsonErc20Symbol(strBytes(e.transferFrom.contract.metadata.TypedMeta)) && e.transferFrom.contract.cacheErc20Metadata.Decimals == jsonErc20Decimals(strBytes(e.transferFrom.contract.metadata.TypedMeta))))
+//@   modifies e.transferFrom.contract.cacheErc20Metadata, kvHas[kvId(layer(env.ctx), payload(e.transferFrom.contract.keeper.storeKey))], kvVal[kvId(layer(env.ctx), payload(e.transferFrom.contract.keeper.storeKey))], bankBal[layer(env.ctx)], bankSupply[layer(env.ctx)], authVersion[layer(env.ctx)], evlog[payload(env.ctx.EventManager())], sdbLogCount[payload(env.evm.StateDB)], sdbLogAddr[payload(env.evm.StateDB)], sdbLogNTopics[payload(env.evm.StateDB)], sdbLogT0[payload(env.evm.StateDB)], sdbLogT1[payload(env.evm.StateDB)], sdbLogT2[payload(env.evm.StateDB)], sdbLogT3[payload(env.evm.StateDB)], sdbLogData[payload(env.evm.StateDB)], sdbOther[payload(env.evm.StateDB)]
+//@   ensures[C10.bf_nonzero_holder] err == nil ==> abiArgAddr(bytes(input), 0) != zero(type(common.Address))
+//@   ensures[C10.bf_caller_or_allowance] (err == nil && abiArgAddr(bytes(input), 0) != caller.Address()) ==> ((old(cpcAllow(kvHas[kvId(layer(env.ctx), payload(e.transferFrom.contract.keeper.storeKey))], kvVal[kvId(layer(env.ctx), payload(e.transferFrom.contract.keeper.storeKey))], abiArgAddr(bytes(input), 0), caller.Address())) == pow2(256) - 1 && (kvHas[kvId(layer(env.ctx), payload(e.transferFrom.contract.keeper.storeKey))] == old(kvHas[kvId(layer(env.ctx), payload(e.transferFrom.contract.keeper.storeKey))]) && kvVal[kvId(layer(env.ctx), payload(e.transferFrom.contract.keeper.storeKey))] == old(kvVal[kvId(layer(env.ctx), payload(e.transferFrom.contract.keeper.storeKey))]))) || (old(cpcAllow(kvHas[kvId(layer(env.ctx), payload(e.transferFrom.contract.keeper.storeKey))], kvVal[kvId(layer(env.ctx), payload(e.transferFrom.contract.keeper.storeKey))], abiArgAddr(bytes(input), 0), caller.Address())) != pow2(256) - 1 && abiArgUint(bytes(input), 1) <= old(cpcAllow(kvHas[kvId(layer(env.ctx), payload(e.transferFrom.contract.keeper.storeKey))], kvVal[kvId(layer(env.ctx), payload(e.transferFrom.contract.keeper.storeKey))], abiArgAddr(bytes(input), 0), caller.Address())) && cpcAllow(kvHas[kvId(layer(env.ctx), payload(e.transferFrom.contract.keeper.storeKey))], kvVal[kvId(layer(env.ctx), payload(e.transferFrom.contract.keeper.storeKey))], abiArgAddr(bytes(input), 0), caller.Address()) == old(cpcAllow(kvHas[kvId(layer(env.ctx), payload(e.transferFrom.contract.keeper.storeKey))], kvVal[kvId(layer(env.ctx), payload(e.transferFrom.contract.keeper.storeKey))], abiArgAddr(bytes(input), 0), caller.Address())) - abiArgUint(bytes(input), 1)))
+//@   ensures[C10.bf_own_coins_no_allowance] (err == nil && abiArgAddr(bytes(input), 0) == caller.Address()) ==> (kvHas[kvId(layer(env.ctx), payload(e.transferFrom.contract.keeper.storeKey))] == old(kvHas[kvId(layer(env.ctx), payload(e.transferFrom.contract.keeper.storeKey))]) && kvVal[kvId(layer(env.ctx), payload(e.transferFrom.contract.keeper.storeKey))] == old(kvVal[kvId(layer(env.ctx), payload(e.transferFrom.contract.keeper.storeKey))]))
+//@   ensures[C10.bf_allowance_frame] (kvHas[kvId(layer(env.ctx), payload(e.transferFrom.contract.keeper.storeKey))] == old(kvHas[kvId(layer(env.ctx), payload(e.transferFrom.contract.keeper.storeKey))])[allowKeyB(abiArgAddr(bytes(input), 0), caller.Address()) := kvHas[kvId(layer(env.ctx), payload(e.transferFrom.contract.keeper.storeKey))][allowKeyB(abiArgAddr(bytes(input), 0), caller.Address())]] && kvVal[kvId(layer(env.ctx), payload(e.transferFrom.contract.keeper.storeKey))] == old(kvVal[kvId(layer(env.ctx), payload(e.transferFrom.contract.keeper.storeKey))])[allowKeyB(abiArgAddr(bytes(input), 0), caller.Address()) := kvVal[kvId(layer(env.ctx), payload(e.transferFrom.contract.keeper.storeKey))][allowKeyB(abiArgAddr(bytes(input), 0), caller.Address())]])
+//@   ensures[C10.bf_needs_balance] err == nil ==> abiArgUint(bytes(input), 1) <= old(bankBal[layer(env.ctx)][addrBytes(abiArgAddr(bytes(input), 0))][erc20Denom(e.transferFrom.contract.metadata.TypedMeta)])
+//@   ensures[C10.bf_burns] err == nil ==> ((forall a bytes, d string :: bankBal[layer(env.ctx)][a][d] == old(bankBal[layer(env.ctx)][a][d]) - ((a == addrBytes(abiArgAddr(bytes(input), 0)) && d == erc20Denom(e.transferFrom.contract.metadata.TypedMeta) && abiArgAddr(bytes(input), 0) != zero(type(common.Address))) ? abiArgUint(bytes(input), 1) : 0)) && (forall d string :: bankSupply[layer(env.ctx)][d] == old(bankSupply[layer(env.ctx)][d]) - ((d == erc20Denom(e.transferFrom.contract.metadata.TypedMeta) && abiArgAddr(bytes(input), 0) != zero(type(common.Address))) ? abiArgUint(bytes(input), 1) : 0)))
+//@   ensures[C10.bf_log] err == nil ==> (sdbLogCount[payload(env.evm.StateDB)] == old(sdbLogCount[payload(env.evm.StateDB)]) + 1 && sdbLogAddr[payload(env.evm.StateDB)] == old(sdbLogAddr[payload(env.evm.StateDB)])[old(sdbLogCount[payload(env.evm.StateDB)]) := contractAddr] && sdbLogNTopics[payload(env.evm.StateDB)] == old(sdbLogNTopics[payload(env.evm.StateDB)])[old(sdbLogCount[payload(env.evm.StateDB)]) := 3] && sdbLogT0[payload(env.evm.StateDB)] == old(sdbLogT0[payload(env.evm.StateDB)])[old(sdbLogCount[payload(env.evm.StateDB)]) := common.HexToHash("0xddf252ad1be2c89b69c2b068fc378daa952ba7f163c4a11628f55a4df523b3ef")] && sdbLogT1[payload(env.evm.StateDB)] == old(sdbLogT1[payload(env.evm.StateDB)])[old(sdbLogCount[payload(env.evm.StateDB)]) := hashOfBytes(addrBytes(abiArgAddr(bytes(input), 0)))] && sdbLogT2[payload(env.evm.StateDB)] == old(sdbLogT2[payload(env.evm.StateDB)])[old(sdbLogCount[payload(env.evm.StateDB)]) := hashOfBytes(addrBytes(zero(type(common.Address))))] && sdbLogData[payload(env.evm.StateDB)] == old(sdbLogData[payload(env.evm.StateDB)])[old(sdbLogCount[payload(env.evm.StateDB)]) := hashBytes(hashOfBytes(beBytes(abiArgUint(bytes(input), 1))))])
+//@   ensures e.transferFrom.contract.cacheErc20Metadata != nil ==> (e.transferFrom.contract.cacheErc20Metadata.MinDenom == erc20Denom(e.transferFrom.contract.metadata.TypedMeta) && e.transferFrom.contract.cacheErc20Metadata.Symbol == jsonErc20Symbol(strBytes(e.transferFrom.contract.metadata.TypedMeta)) && e.transferFrom.contract.cacheErc20Metadata.Decimals == jsonErc20Decimals(strBytes(e.transferFrom.contract.metadata.TypedMeta)))
+//@   panics[C10.bf_panics] only_if len(input) < 4 || !abiSelectorOk("burnFrom", bytes(input)) || !jsonErc20Ok(strBytes(e.transferFrom.contract.metadata.TypedMeta)) || !denomValid(erc20Denom(e.transferFrom.contract.metadata.TypedMeta)) || !modExists(cpctypes.ModuleName) || !modCanBurn(cpctypes.ModuleName) || cpcAllow(kvHas[kvId(layer(env.ctx), payload(e.transferFrom.contract.keeper.storeKey))], kvVal[kvId(layer(env.ctx), payload(e.transferFrom.contract.keeper.storeKey))], abiArgAddr(bytes(input), 0), caller.Address()) >= pow2(256)
+
+// burn(x): destroys the CALLER's coins only; the allowance table is untouched (frame).
+//@ func (e erc20CustomPrecompiledContractRwBurn) Execute(caller corevm.ContractRef, contractAddr common.Address, input []byte, env cpcExecutorEnv) (ret []byte, err error)
+//@   requires caller != nil && env.evm != nil && env.evm.StateDB != nil && e.transferFrom.contract != nil && e.transferFrom.contract.keeper.storeKey != nil && e.transferFrom.contract.keeper.bankKeeper != nil
+//@   requires (e.transferFrom.contract.cacheErc20Metadata != nil ==> (e.transferFrom.contract.cacheErc20Metadata.MinDenom == erc20Denom(e.transferFrom.contract.metadata.TypedMeta) && e.transferFrom.contract.cacheErc20Metadata.Symbol == jsonErc20Symbol(strBytes(e.transferFrom.contract.metadata.TypedMeta)) && e.transferFrom.contract.cacheErc20Metadata.Decimals == jsonErc20Decimals(strBytes(e.transferFrom.contract.metadata.TypedMeta))))
+//@   modifies e.transferFrom.contract.cacheErc20Metadata, bankBal[layer(env.ctx)], bankSupply[layer(env.ctx)], authVersion[layer(env.ctx)], evlog[payload(env.ctx.EventManager())], sdbLogCount[payload(env.evm.StateDB)], sdbLogAddr[payload(env.evm.StateDB)], sdbLogNTopics[payload(env.evm.StateDB)], sdbLogT0[payload(env.evm.StateDB)], sdbLogT1[payload(env.evm.StateDB)], sdbLogT2[payload(env.evm.StateDB)], sdbLogT3[payload(env.evm.StateDB)], sdbLogData[payload(env.evm.StateDB)], sdbOther[payload(env.evm.StateDB)]
+//@   ensures[C10.b_nonzero_holder] err == nil ==> caller.Address() != zero(type(common.Address))
+//@   ensures[C10.b_needs_balance] err == nil ==> abiArgUint(bytes(input), 0) <= old(bankBal[layer(env.ctx)][addrBytes(caller.Address())][erc20Denom(e.transferFrom.contract.metadata.TypedMeta)])
+//@   ensures[C10.b_burns] err == nil ==> ((forall a bytes, d string :: bankBal[layer(env.ctx)][a][d] == old(bankBal[layer(env.ctx)][a][d]) - ((a == addrBytes(caller.Address()) && d == erc20Denom(e.transferFrom.contract.metadata.TypedMeta) && caller.Address() != zero(type(common.Address))) ? abiArgUint(bytes(input), 0) : 0)) && (forall d string :: bankSupply[layer(env.ctx)][d] == old(bankSupply[layer(env.ctx)][d]) - ((d == erc20Denom(e.transferFrom.contract.metadata.TypedMeta) && caller.Address() != zero(type(common.Address))) ? abiArgUint(bytes(input), 0) : 0)))
+//@   ensures[C10.b_log] err == nil ==> (sdbLogCount[payload(env.evm.StateDB)] == old(sdbLogCount[payload(env.evm.StateDB)]) + 1 && sdbLogAddr[payload(env.evm.StateDB)] == old(sdbLogAddr[payload(env.evm.StateDB)])[old(sdbLogCount[payload(env.evm.StateDB)]) := contractAddr] && sdbLogNTopics[payload(env.evm.StateDB)] == old(sdbLogNTopics[payload(env.evm.StateDB)])[old(sdbLogCount[payload(env.evm.StateDB)]) := 3] && sdbLogT0[payload(env.evm.StateDB)] == old(sdbLogT0[payload(env.evm.StateDB)])[old(sdbLogCount[payload(env.evm.StateDB)]) := common.HexToHash("0xddf252ad1be2c89b69c2b068fc378daa952ba7f163c4a11628f55a4df523b3ef")] && sdbLogT1[payload(env.evm.StateDB)] == old(sdbLogT1[payload(env.evm.StateDB)])[old(sdbLogCount[payload(env.evm.StateDB)]) := hashOfBytes(addrBytes(caller.Address()))] && sdbLogT2[payload(env.evm.StateDB)] == old(sdbLogT2[payload(env.evm.StateDB)])[old(sdbLogCount[payload(env.evm.StateDB)]) := hashOfBytes(addrBytes(zero(type(common.Address))))] && sdbLogData[payload(env.evm.StateDB)] == old(sdbLogData[payload(env.evm.StateDB)])[old(sdbLogCount[payload(env.evm.StateDB)]) := hashBytes(hashOfBytes(beBytes(abiArgUint(bytes(input), 0))))])
+//@   ensures e.transferFrom.contract.cacheErc20Metadata != nil ==> (e.transferFrom.contract.cacheErc20Metadata.MinDenom == erc20Denom(e.transferFrom.contract.metadata.TypedMeta) && e.transferFrom.contract.cacheErc20Metadata.Symbol == jsonErc20Symbol(strBytes(e.transferFrom.contract.metadata.TypedMeta)) && e.transferFrom.contract.cacheErc20Metadata.Decimals == jsonErc20Decimals(strBytes(e.transferFrom.contract.metadata.TypedMeta)))
+//@   panics[C10.b_panics] only_if len(input) < 4 || !abiSelectorOk("burn", bytes(input)) || !jsonErc20Ok(strBytes(e.transferFrom.contract.metadata.TypedMeta)) || !denomValid(erc20Denom(e.transferFrom.contract.metadata.TypedMeta)) || !modExists(cpctypes.ModuleName) || !modCanBurn(cpctypes.ModuleName)
+
+// ---------------------------------------------------------------------------------------------
+// Execute of the read-only ERC-20 methods (C10 views, C12 clause (b)): the frame is the decode cache of the contract
+// object only — no store, bank, log or event component is written.
+// ---------------------------------------------------------------------------------------------
+
+//@ func (e erc20CustomPrecompiledContractRoName) Execute(caller corevm.ContractRef, contractAddr common.Address, input []byte, env cpcExecutorEnv) (ret []byte, err error)
+//@   requires e.contract != nil
+//@   modifies nothing
+//@   ensures[C10.view_name,C12.ro_name_writes_nothing] err == nil ==> bytes(ret) == abiEncString(e.contract.metadata.Name)
+//@   ensures[C12.ro_world_unchanged] (bankBal == old(bankBal) && bankSupply == old(bankSupply) && authVersion == old(authVersion) && evlog == old(evlog) && kvHas == old(kvHas) && kvVal == old(kvVal) && acctSeq == old(acctSeq) && acctExists == old(acctExists) && stakingVersion == old(stakingVersion) && distVersion == old(distVersion) && sdbLogCount == old(sdbLogCount) && sdbLogAddr == old(sdbLogAddr) && sdbLogNTopics == old(sdbLogNTopics) && sdbLogT0 == old(sdbLogT0) && sdbLogT1 == old(sdbLogT1) && sdbLogT2 == old(sdbLogT2) && sdbLogT3 == old(sdbLogT3) && sdbLogData == old(sdbLogData))
+//@   panics[C10.view_name_panics] only_if len(input) < 4 || !abiSelectorOk("name", bytes(input))
+
+//@ func (e erc20CustomPrecompiledContractRoSymbol) Execute(caller corevm.ContractRef, contractAddr common.Address, input []byte, env cpcExecutorEnv) (ret []byte, err error)
+//@   requires e.contract != nil
+//@   requires (e.contract.cacheErc20Metadata != nil ==> (e.contract.cacheErc20Metadata.MinDenom == erc20Denom(e.contract.metadata.TypedMeta) && e.contract.cacheErc20Metadata.Symbol == jsonErc20Symbol(strBytes(e.contract.metadata.TypedMeta)) && e.contract.cacheErc20Metadata.Decimals == jsonErc20Decimals(strBytes(e.contract.metadata.TypedMeta))))
+//@   modifies e.contract.cacheErc20Metadata
+//@   ensures[C10.view_symbol,C12.ro_symbol_writes_nothing] err == nil ==> bytes(ret) == abiEncString(jsonErc20Symbol(strBytes(e.contract.metadata.TypedMeta)))
+//@   ensures[C12.ro_world_unchanged] (bankBal == old(bankBal) && bankSupply == old(bankSupply) && authVersion == old(authVersion) && evlog == old(evlog) && kvHas == old(kvHas) && kvVal == old(kvVal) && acctSeq == old(acctSeq) && acctExists == old(acctExists) && stakingVersion == old(stakingVersion) && distVersion == old(distVersion) && sdbLogCount == old(sdbLogCount) && sdbLogAddr == old(sdbLogAddr) && sdbLogNTopics == old(sdbLogNTopics) && sdbLogT0 == old(sdbLogT0) && sdbLogT1 == old(sdbLogT1) && sdbLogT2 == old(sdbLogT2) && sdbLogT3 == old(sdbLogT3) && sdbLogData == old(sdbLogData))
+//@   ensures e.contract.cacheErc20Metadata != nil ==> (e.contract.cacheErc20Metadata.MinDenom == erc20Denom(e.contract.metadata.TypedMeta) && e.contract.cacheErc20Metadata.Symbol == jsonErc20Symbol(strBytes(e.contract.metadata.TypedMeta)) && e.contract.cacheErc20Metadata.Decimals == jsonErc20Decimals(strBytes(e.contract.metadata.TypedMeta)))
+//@   panics[C10.view_symbol_panics] only_if len(input) < 4 || !abiSelectorOk("symbol", bytes(input)) || !jsonErc20Ok(strBytes(e.contract.metadata.TypedMeta))
+
+//@ func (e erc20CustomPrecompiledContractRoDecimals) Execute(caller corevm.ContractRef, contractAddr common.Address, input []byte, env cpcExecutorEnv) (ret []byte, err error)
+//@   requires e.contract != nil
+//@   requires (e.contract.cacheErc20Metadata != nil ==> (e.contract.cacheErc20Metadata.MinDenom == erc20Denom(e.contract.metadata.TypedMeta) && e.contract.cacheErc20Metadata.Symbol == jsonErc20Symbol(strBytes(e.contract.metadata.TypedMeta)) && e.contract.cacheErc20Metadata.Decimals == jsonErc20Decimals(strBytes(e.contract.metadata.TypedMeta))))
+//@   modifies e.contract.cacheErc20Metadata
+//@   ensures[C10.view_decimals,C12.ro_decimals_writes_nothing] err == nil ==> bytes(ret) == abiEncUint(jsonErc20Decimals(strBytes(e.contract.metadata.TypedMeta)))
+//@   ensures[C12.ro_world_unchanged] (bankBal == old(bankBal) && bankSupply == old(bankSupply) && authVersion == old(authVersion) && evlog == old(evlog) && kvHas == old(kvHas) && kvVal == old(kvVal) && acctSeq == old(acctSeq) && acctExists == old(acctExists) && stakingVersion == old(stakingVersion) && distVersion == old(distVersion) && sdbLogCount == old(sdbLogCount) && sdbLogAddr == old(sdbLogAddr) && sdbLogNTopics == old(sdbLogNTopics) && sdbLogT0 == old(sdbLogT0) && sdbLogT1 == old(sdbLogT1) && sdbLogT2 == old(sdbLogT2) && sdbLogT3 == old(sdbLogT3) && sdbLogData == old(sdbLogData))
+//@   ensures e.contract.cacheErc20Metadata != nil ==> (e.contract.cacheErc20Metadata.MinDenom == erc20Denom(e.contract.metadata.TypedMeta) && e.contract.cacheErc20Metadata.Symbol == jsonErc20Symbol(strBytes(e.contract.metadata.TypedMeta)) && e.contract.cacheErc20Metadata.Decimals == jsonErc20Decimals(strBytes(e.contract.metadata.TypedMeta)))
+//@   panics[C10.view_decimals_panics] only_if len(input) < 4 || !abiSelectorOk("decimals", bytes(input)) || !jsonErc20Ok(strBytes(e.contract.metadata.TypedMeta))
+
+//@ func (e erc20CustomPrecompiledContractRoTotalSupply) Execute(caller corevm.ContractRef, contractAddr common.Address, input []byte, env cpcExecutorEnv) (ret []byte, err error)
+//@   requires e.contract != nil && e.contract.keeper.bankKeeper != nil
+//@   requires (e.contract.cacheErc20Metadata != nil ==> (e.contract.cacheErc20Metadata.MinDenom == erc20Denom(e.contract.metadata.TypedMeta) && e.contract.cacheErc20Metadata.Symbol == jsonErc20Symbol(strBytes(e.contract.metadata.TypedMeta)) && e.contract.cacheErc20Metadata.Decimals == jsonErc20Decimals(strBytes(e.contract.metadata.TypedMeta))))
+//@   modifies e.contract.cacheErc20Metadata
+//@   ensures[C10.view_totalSupply,C12.ro_totalSupply_writes_nothing] err == nil ==> bytes(ret) == abiEncUint(bankSupply[layer(env.ctx)][erc20Denom(e.contract.metadata.TypedMeta)])
+//@   ensures[C12.ro_world_unchanged] (bankBal == old(bankBal) && bankSupply == old(bankSupply) && authVersion == old(authVersion) && evlog == old(evlog) && kvHas == old(kvHas) && kvVal == old(kvVal) && acctSeq == old(acctSeq) && acctExists == old(acctExists) && stakingVersion == old(stakingVersion) && distVersion == old(distVersion) && sdbLogCount == old(sdbLogCount) && sdbLogAddr == old(sdbLogAddr) && sdbLogNTopics == old(sdbLogNTopics) && sdbLogT0 == old(sdbLogT0) && sdbLogT1 == old(sdbLogT1) && sdbLogT2 == old(sdbLogT2) && sdbLogT3 == old(sdbLogT3) && sdbLogData == old(sdbLogData))
+//@   ensures e.contract.cacheErc20Metadata != nil ==> (e.contract.cacheErc20Metadata.MinDenom == erc20Denom(e.contract.metadata.TypedMeta) && e.contract.cacheErc20Metadata.Symbol == jsonErc20Symbol(strBytes(e.contract.metadata.TypedMeta)) && e.contract.cacheErc20Metadata.Decimals == jsonErc20Decimals(strBytes(e.contract.metadata.TypedMeta)))
+//@   panics[C10.view_totalSupply_panics] only_if len(input) < 4 || !abiSelectorOk("totalSupply", bytes(input)) || !jsonErc20Ok(strBytes(e.contract.metadata.TypedMeta))
+
+//@ func (e erc20CustomPrecompiledContractRoBalanceOf) Execute(caller corevm.ContractRef, contractAddr common.Address, input []byte, env cpcExecutorEnv) (ret []byte, err error)
+//@   requires e.contract != nil && e.contract.keeper.bankKeeper != nil
+//@   requires (e.contract.cacheErc20Metadata != nil ==> (e.contract.cacheErc20Metadata.MinDenom == erc20Denom(e.contract.metadata.TypedMeta) && e.contract.cacheErc20Metadata.Symbol == jsonErc20Symbol(strBytes(e.contract.metadata.TypedMeta)) && e.contract.cacheErc20Metadata.Decimals == jsonErc20Decimals(strBytes(e.contract.metadata.TypedMeta))))
+//@   modifies e.contract.cacheErc20Metadata
+//@   ensures[C10.view_balanceOf,C12.ro_balanceOf_writes_nothing] err == nil ==> bytes(ret) == abiEncUint(bankBal[layer(env.ctx)][addrBytes(abiArgAddr(bytes(input), 0))][erc20Denom(e.contract.metadata.TypedMeta)])
+//@   ensures[C12.ro_world_unchanged] (bankBal == old(bankBal) && bankSupply == old(bankSupply) && authVersion == old(authVersion) && evlog == old(evlog) && kvHas == old(kvHas) && kvVal == old(kvVal) && acctSeq == old(acctSeq) && acctExists == old(acctExists) && stakingVersion == old(stakingVersion) && distVersion == old(distVersion) && sdbLogCount == old(sdbLogCount) && sdbLogAddr == old(sdbLogAddr) && sdbLogNTopics == old(sdbLogNTopics) && sdbLogT0 == old(sdbLogT0) && sdbLogT1 == old(sdbLogT1) && sdbLogT2 == old(sdbLogT2) && sdbLogT3 == old(sdbLogT3) && sdbLogData == old(sdbLogData))
+//@   ensures e.contract.cacheErc20Metadata != nil ==> (e.contract.cacheErc20Metadata.MinDenom == erc20Denom(e.contract.metadata.TypedMeta) && e.contract.cacheErc20Metadata.Symbol == jsonErc20Symbol(strBytes(e.contract.metadata.TypedMeta)) && e.contract.cacheErc20Metadata.Decimals == jsonErc20Decimals(strBytes(e.contract.metadata.TypedMeta)))
+//@   panics[C10.view_balanceOf_panics] only_if len(input) < 4 || !abiSelectorOk("balanceOf", bytes(input)) || !jsonErc20Ok(strBytes(e.contract.metadata.TypedMeta))
+
+//@ func (e erc20CustomPrecompiledContractRoAllowance) Execute(caller corevm.ContractRef, contractAddr common.Address, input []byte, env cpcExecutorEnv) (ret []byte, err error)
+//@   requires e.contract != nil && e.contract.keeper.storeKey != nil
+//@   modifies nothing
+//@   ensures[C10.view_allowance,C12.ro_allowance_writes_nothing] err == nil ==> bytes(ret) == abiEncUint(cpcAllow(kvHas[kvId(layer(env.ctx), payload(e.contract.keeper.storeKey))], kvVal[kvId(layer(env.ctx), payload(e.contract.keeper.storeKey))], abiArgAddr(bytes(input), 0), abiArgAddr(bytes(input), 1)))
+//@   ensures[C12.ro_world_unchanged] (bankBal == old(bankBal) && bankSupply == old(bankSupply) && authVersion == old(authVersion) && evlog == old(evlog) && kvHas == old(kvHas) && kvVal == old(kvVal) && acctSeq == old(acctSeq) && acctExists == old(acctExists) && stakingVersion == old(stakingVersion) && distVersion == old(distVersion) && sdbLogCount == old(sdbLogCount) && sdbLogAddr == old(sdbLogAddr) && sdbLogNTopics == old(sdbLogNTopics) && sdbLogT0 == old(sdbLogT0) && sdbLogT1 == old(sdbLogT1) && sdbLogT2 == old(sdbLogT2) && sdbLogT3 == old(sdbLogT3) && sdbLogData == old(sdbLogData))
+//@   panics[C10.view_allowance_panics] only_if len(input) < 4 || !abiSelectorOk("allowance", bytes(input))
+
+// ---------------------------------------------------------------------------------------------
+// precompiles.go — wiring of the executors into the fork's method table (C12)
+// ---------------------------------------------------------------------------------------------
+//@ import evmvm "github.com/EscanBE/evermint/v12/x/evm/vm"
+
+// Interface-level summaries (TRUSTED; justified by the per-implementation contracts above: every implementation of
+// ReadOnly / RequireGas / Method4BytesSignatures returns a constant of the executor object, which is never mutated
+// after construction) — a function of the executor value.
+//@ func (x ExtendedCustomPrecompiledContractMethodExecutorI) ReadOnly() bool
+//@   assumed
+//@   pure
+//@   panics never
+//@ func (x ExtendedCustomPrecompiledContractMethodExecutorI) RequireGas() uint64
+//@   assumed
+//@   pure
+//@   panics never
+//@ func (x ExtendedCustomPrecompiledContractMethodExecutorI) Method4BytesSignatures() []byte
+//@   assumed
+//@   pure
+//@   ensures len(result) == 4
+//@   panics never
+
+// Ghost record of the call that reaches an executor: how often, and with which environment.
+//@ ghost var cpcInnerCalls map[int]int
+//@ ghost var cpcInnerCtx map[int]sdk.Context
+//@ ghost var cpcInnerEvm map[int]ref
+//@ ghost var cpcInnerExecutor map[int]ref
+//@ ghost var cpcInnerInput map[int]bytes
+//@ func (x ExtendedCustomPrecompiledContractMethodExecutorI) Execute(caller corevm.ContractRef, contractAddress common.Address, input []byte, env cpcExecutorEnv) (ret []byte, err error)
+//@   assumed
+//@   modifies cpcInnerCalls, cpcInnerCtx, cpcInnerEvm, cpcInnerExecutor, cpcInnerInput, bankBal, bankSupply, authVersion, evlog, kvHas, kvVal, sdbLogCount, sdbLogAddr, sdbLogNTopics, sdbLogT0, sdbLogT1, sdbLogT2, sdbLogT3, sdbLogData, sdbOther, sdbBal, sdbNonce, sdbSupply
+//@   ensures cpcInnerCalls[0] == old(cpcInnerCalls[0]) + 1 && cpcInnerCtx[0] == env.ctx && cpcInnerEvm[0] == env.evm && cpcInnerExecutor[0] == payload(x) && cpcInnerInput[0] == bytes(input)
+//@   panics any
+
+// the StateDB's current (innermost, revertible) context: x/evm/vm cStateDb.GetCurrentContext returns d.currentCtx
+// (a component of the StateDB object's state: it changes with Snapshot / RevertToSnapshot)
+//@ ghost var sdbCurCtx map[ref]sdk.Context
+//@ func (d evmvm.CStateDB) GetCurrentContext() sdk.Context
+//@   assumed
+//@   modifies nothing
+//@   ensures result == sdbCurCtx[payload(d)]
+//@   panics never
+
+// NewCustomPrecompiledContractMethod passes the executor's declarations through UNCHANGED (C12: the fork gates on exactly
+// the ReadOnly flag the executor declares and charges exactly the gas it declares) and wraps the executor.
+//@ func NewCustomPrecompiledContractMethod(executor ExtendedCustomPrecompiledContractMethodExecutorI, protocolVersion cpctypes.ProtocolCpc) (m corevm.CustomPrecompiledContractMethod)
+//@   requires executor != nil
+//@   modifies nothing
+//@   ensures[C12.flag_passthrough] m.ReadOnly == executor.ReadOnly() && m.RequireGas == executor.RequireGas() && m.Method4BytesSignatures == executor.Method4BytesSignatures()
+//@   ensures[C12.wraps_executor] typeof(m.Executor) == type(*customPrecompiledContractMethodExecutorImpl) && fresh(payload(m.Executor)) && unbox(m.Executor, type(*customPrecompiledContractMethodExecutorImpl)).executor == executor && unbox(m.Executor, type(*customPrecompiledContractMethodExecutorImpl)).protocolVersion == protocolVersion
+//@   panics never
+
+// The wrapper the fork calls: exactly one call of the wrapped executor, with the call data unchanged, the EVM it was
+// given and the StateDB's CURRENT context (so that every write of the executor lands in the innermost, revertible layer).
+//@ func (m customPrecompiledContractMethodExecutorImpl) Execute(caller corevm.ContractRef, contractAddress common.Address, input []byte, evm *corevm.EVM) (ret []byte, err error)
+//@   requires m.executor != nil && evm != nil
+//@   modifies cpcInnerCalls, cpcInnerCtx, cpcInnerEvm, cpcInnerExecutor, cpcInnerInput, bankBal, bankSupply, authVersion, evlog, kvHas, kvVal, sdbLogCount, sdbLogAddr, sdbLogNTopics, sdbLogT0, sdbLogT1, sdbLogT2, sdbLogT3, sdbLogData, sdbOther, sdbBal, sdbNonce, sdbSupply
+//@   ensures[C12.exec_env,C03.exec_env] cpcInnerCalls[0] == old(cpcInnerCalls[0]) + 1 && cpcInnerEvm[0] == evm && cpcInnerExecutor[0] == payload(m.executor) && cpcInnerInput[0] == bytes(input) && implements(evm.StateDB, type(evmvm.CStateDB)) && cpcInnerCtx[0] == old(sdbCurCtx[payload(evm.StateDB)])
+//@   panics any
+
+// ---------------------------------------------------------------------------------------------
+// params.go — module parameters (C17). View of the stored record: the store entry at key [1] (KeyPrefixParams),
+// decoded by the codec (prelude/44_cpc_codec.spec); an absent / empty entry is the zero Params record.
+// ---------------------------------------------------------------------------------------------
+//@ ghost func cpcParamsVersion(has map[bytes]bool, val map[bytes]bytes) int = (has[b1(1)] && blen(val[b1(1)]) != 0) ? pbParamsVersion(val[b1(1)]) : 0
+//@ ghost func cpcParamsDoc(has map[bytes]bool, val map[bytes]bytes) bytes = val[b1(1)]
+//@ ghost func cpcParamsStored(has map[bytes]bool, val map[bytes]bytes) bool = has[b1(1)] && blen(val[b1(1)]) != 0
+
+//@ func (k Keeper) GetParams(ctx sdk.Context) (params cpctypes.Params)
+//@   requires k.storeKey != nil && k.cdc != nil
+//@   modifies nothing
+//@   ensures[C17.params_view] params.ProtocolVersion == cpcParamsVersion(kvHas[kvId(layer(ctx), payload(k.storeKey))], kvVal[kvId(layer(ctx), payload(k.storeKey))])
+//@   ensures[C17.params_whitelist_view] cpcParamsStored(kvHas[kvId(layer(ctx), payload(k.storeKey))], kvVal[kvId(layer(ctx), payload(k.storeKey))]) ==> (len(params.WhitelistedDeployers) == pbParamsWLLen(cpcParamsDoc(kvHas[kvId(layer(ctx), payload(k.storeKey))], kvVal[kvId(layer(ctx), payload(k.storeKey))])) && (forall j int :: (0 <= j && j < len(params.WhitelistedDeployers)) ==> params.WhitelistedDeployers[j] == pbParamsWLAt(cpcParamsDoc(kvHas[kvId(layer(ctx), payload(k.storeKey))], kvVal[kvId(layer(ctx), payload(k.storeKey))]), j)))
+//@   ensures !cpcParamsStored(kvHas[kvId(layer(ctx), payload(k.storeKey))], kvVal[kvId(layer(ctx), payload(k.storeKey))]) ==> len(params.WhitelistedDeployers) == 0
+//@   panics only_if cpcParamsStored(kvHas[kvId(layer(ctx), payload(k.storeKey))], kvVal[kvId(layer(ctx), payload(k.storeKey))]) && !pbParamsOk(cpcParamsDoc(kvHas[kvId(layer(ctx), payload(k.storeKey))], kvVal[kvId(layer(ctx), payload(k.storeKey))]))
+
+//@ func (k Keeper) GetProtocolCpcVersion(ctx sdk.Context) cpctypes.ProtocolCpc
+//@   requires k.storeKey != nil && k.cdc != nil
+//@   modifies nothing
+//@   ensures[C17.version_view] result == cpcParamsVersion(kvHas[kvId(layer(ctx), payload(k.storeKey))], kvVal[kvId(layer(ctx), payload(k.storeKey))])
+//@   panics only_if cpcParamsStored(kvHas[kvId(layer(ctx), payload(k.storeKey))], kvVal[kvId(layer(ctx), payload(k.storeKey))]) && !pbParamsOk(cpcParamsDoc(kvHas[kvId(layer(ctx), payload(k.storeKey))], kvVal[kvId(layer(ctx), payload(k.storeKey))]))
+
+// SetParams: the protocol version never decreases; a rejected update leaves the store untouched; only the params entry is written.
+//@ func (k Keeper) SetParams(ctx sdk.Context, params cpctypes.Params) (err error)
+//@   requires k.storeKey != nil && k.cdc != nil
+//@   modifies kvHas[kvId(layer(ctx), payload(k.storeKey))], kvVal[kvId(layer(ctx), payload(k.storeKey))]
+//@   ensures[C17.no_downgrade] err == nil ==> (old(cpcParamsVersion(kvHas[kvId(layer(ctx), payload(k.storeKey))], kvVal[kvId(layer(ctx), payload(k.storeKey))])) <= params.ProtocolVersion && cpcParamsVersion(kvHas[kvId(layer(ctx), payload(k.storeKey))], kvVal[kvId(layer(ctx), payload(k.storeKey))]) == params.ProtocolVersion)
+//@   ensures[C17.downgrade_rejected] old(cpcParamsVersion(kvHas[kvId(layer(ctx), payload(k.storeKey))], kvVal[kvId(layer(ctx), payload(k.storeKey))])) > params.ProtocolVersion ==> err != nil
+//@   ensures[C17.rejected_update_writes_nothing] err != nil ==> (kvHas[kvId(layer(ctx), payload(k.storeKey))] == old(kvHas[kvId(layer(ctx), payload(k.storeKey))]) && kvVal[kvId(layer(ctx), payload(k.storeKey))] == old(kvVal[kvId(layer(ctx), payload(k.storeKey))]))
+//@   ensures[C17.params_frame] (kvHas[kvId(layer(ctx), payload(k.storeKey))] == old(kvHas[kvId(layer(ctx), payload(k.storeKey))])[b1(1) := kvHas[kvId(layer(ctx), payload(k.storeKey))][b1(1)]] && kvVal[kvId(layer(ctx), payload(k.storeKey))] == old(kvVal[kvId(layer(ctx), payload(k.storeKey))])[b1(1) := kvVal[kvId(layer(ctx), payload(k.storeKey))][b1(1)]])
+//@   ensures[C17.params_valid_version] err == nil ==> (1 <= params.ProtocolVersion && params.ProtocolVersion <= 1)
+
+// msg_server.go — deployment is restricted to the whitelist stored in the params (C17)
+//@ func validateDeployer(authority string, moduleParams cpctypes.Params) (err error)
+//@   modifies nothing
+//@   ensures[C17.whitelist_check] (err == nil) == (exists j int :: 0 <= j && j < len(moduleParams.WhitelistedDeployers) && moduleParams.WhitelistedDeployers[j] == authority)
+//@   panics never
+//@ loop 1
+//@   invariant -1 <= rangeindex && rangeindex < len(moduleParams.WhitelistedDeployers) && (forall j int :: (0 <= j && j <= rangeindex) ==> moduleParams.WhitelistedDeployers[j] != authority)
+
+// ---------------------------------------------------------------------------------------------
+// precompiles.go — the registry of custom precompiled contracts (C17). View over the module store: the record of address
+// a is the store entry at metaKeyB(a) = [2] ++ a (x/cpc/types/verif_contracts.go), decoded by the codec.
+// ---------------------------------------------------------------------------------------------
+
+//@ func (k Keeper) HasCustomPrecompiledContract(ctx sdk.Context, contractAddress common.Address) bool
+//@   requires k.storeKey != nil
+//@   modifies nothing
+//@   ensures[C17.has_view] result == kvHas[kvId(layer(ctx), payload(k.storeKey))][metaKeyB(contractAddress)]
+//@   panics never
+
+//@ func (k Keeper) GetCustomPrecompiledContractMeta(ctx sdk.Context, contractAddress common.Address) (meta *cpctypes.CustomPrecompiledContractMeta)
+//@   requires k.storeKey != nil && k.cdc != nil
+//@   modifies nothing
+//@   ensures[C17.get_absent] (meta == nil) == !(kvHas[kvId(layer(ctx), payload(k.storeKey))][metaKeyB(contractAddress)] && blen(kvVal[kvId(layer(ctx), payload(k.storeKey))][metaKeyB(contractAddress)]) != 0)
+//@   ensures[C17.get_view] meta != nil ==> (fresh(meta) && meta.CustomPrecompiledType == pbMetaType(kvVal[kvId(layer(ctx), payload(k.storeKey))][metaKeyB(contractAddress)]) && bytes(meta.Address) == pbMetaAddr(kvVal[kvId(layer(ctx), payload(k.storeKey))][metaKeyB(contractAddress)]) && meta.Name == pbMetaName(kvVal[kvId(layer(ctx), payload(k.storeKey))][metaKeyB(contractAddress)]) && meta.TypedMeta == pbMetaTyped(kvVal[kvId(layer(ctx), payload(k.storeKey))][metaKeyB(contractAddress)]) && meta.Disabled == pbMetaDisabled(kvVal[kvId(layer(ctx), payload(k.storeKey))][metaKeyB(contractAddress)]))
+//@   panics only_if kvHas[kvId(layer(ctx), payload(k.storeKey))][metaKeyB(contractAddress)] && !pbMetaOk(kvVal[kvId(layer(ctx), payload(k.storeKey))][metaKeyB(contractAddress)])
+
+// SetCustomPrecompiledContractMeta: a new deployment needs a free address, an update an existing record of the SAME type
+// (a type change panics); only the record of that address is written; a failing call writes nothing.
+//@ func (k Keeper) SetCustomPrecompiledContractMeta(ctx sdk.Context, contractMetadata cpctypes.CustomPrecompiledContractMeta, newDeployment bool) (err error)
+//@   requires k.storeKey != nil && k.cdc != nil
+//@   modifies kvHas[kvId(layer(ctx), payload(k.storeKey))], kvVal[kvId(layer(ctx), payload(k.storeKey))], evlog[payload(ctx.EventManager())]
+//@   ensures[C17.valid_records_only] err == nil ==> (len(contractMetadata.Address) == 20 && bytesAddr(bytes(contractMetadata.Address)) != zero(type(common.Address)) && 1 <= contractMetadata.CustomPrecompiledType && contractMetadata.CustomPrecompiledType <= 3)
+//@   ensures[C17.new_needs_free_address] (err == nil && newDeployment) ==> !old(kvHas[kvId(layer(ctx), payload(k.storeKey))][metaKeyB(bytesAddr(bytes(contractMetadata.Address)))])
+//@   ensures[C17.update_needs_record] (err == nil && !newDeployment) ==> (old(kvHas[kvId(layer(ctx), payload(k.storeKey))][metaKeyB(bytesAddr(bytes(contractMetadata.Address)))]) && blen(old(kvVal[kvId(layer(ctx), payload(k.storeKey))][metaKeyB(bytesAddr(bytes(contractMetadata.Address)))])) != 0)
+//@   ensures[C17.type_never_changes] (err == nil && !newDeployment) ==> pbMetaType(old(kvVal[kvId(layer(ctx), payload(k.storeKey))][metaKeyB(bytesAddr(bytes(contractMetadata.Address)))])) == contractMetadata.CustomPrecompiledType
+//@   ensures[C17.record_stored] err == nil ==> (kvHas[kvId(layer(ctx), payload(k.storeKey))][metaKeyB(bytesAddr(bytes(contractMetadata.Address)))] && pbMetaType(kvVal[kvId(layer(ctx), payload(k.storeKey))][metaKeyB(bytesAddr(bytes(contractMetadata.Address)))]) == contractMetadata.CustomPrecompiledType && pbMetaAddr(kvVal[kvId(layer(ctx), payload(k.storeKey))][metaKeyB(bytesAddr(bytes(contractMetadata.Address)))]) == bytes(contractMetadata.Address) && pbMetaName(kvVal[kvId(layer(ctx), payload(k.storeKey))][metaKeyB(bytesAddr(bytes(contractMetadata.Address)))]) == contractMetadata.Name && pbMetaTyped(kvVal[kvId(layer(ctx), payload(k.storeKey))][metaKeyB(bytesAddr(bytes(contractMetadata.Address)))]) == contractMetadata.TypedMeta && pbMetaDisabled(kvVal[kvId(layer(ctx), payload(k.storeKey))][metaKeyB(bytesAddr(bytes(contractMetadata.Address)))]) == contractMetadata.Disabled && blen(kvVal[kvId(layer(ctx), payload(k.storeKey))][metaKeyB(bytesAddr(bytes(contractMetadata.Address)))]) != 0)
+//@   ensures[C17.registry_frame] (kvHas[kvId(layer(ctx), payload(k.storeKey))] == old(kvHas[kvId(layer(ctx), payload(k.storeKey))])[metaKeyB(bytesAddr(bytes(contractMetadata.Address))) := kvHas[kvId(layer(ctx), payload(k.storeKey))][metaKeyB(bytesAddr(bytes(contractMetadata.Address)))]] && kvVal[kvId(layer(ctx), payload(k.storeKey))] == old(kvVal[kvId(layer(ctx), payload(k.storeKey))])[metaKeyB(bytesAddr(bytes(contractMetadata.Address))) := kvVal[kvId(layer(ctx), payload(k.storeKey))][metaKeyB(bytesAddr(bytes(contractMetadata.Address)))]])
+//@   ensures[C17.failed_set_writes_nothing] err != nil ==> (kvHas[kvId(layer(ctx), payload(k.storeKey))] == old(kvHas[kvId(layer(ctx), payload(k.storeKey))]) && kvVal[kvId(layer(ctx), payload(k.storeKey))] == old(kvVal[kvId(layer(ctx), payload(k.storeKey))]))
+//@   ensures[C17.registry_key_table] cpcKeyTable(metaKeyB(bytesAddr(bytes(contractMetadata.Address)))) == 2
+
+// ---------------------------------------------------------------------------------------------
+// Deployment (C17): dynamic addresses come from the cpc module account's sequence; fixed-address contracts are deployed
+// at their fixed addresses; every deployment is a NEW registry record (never an overwrite).
+// ---------------------------------------------------------------------------------------------
+//@ import crypto "github.com/ethereum/go-ethereum/crypto"
+
+//@ func (k Keeper) GetNextDynamicCustomPrecompiledContractAddress(ctx sdk.Context) common.Address
+//@   modifies acctExists[layer(ctx)], acctSeq[layer(ctx)], authVersion[layer(ctx)]
+//@   ensures[C17.dynamic_address_from_sequence] result == crypto.CreateAddress(cpctypes.CpcModuleAddress, old(acctSeq[layer(ctx)][moduleAddr(cpctypes.ModuleName)]))
+//@   ensures[C17.sequence_consumed] acctSeq[layer(ctx)] == old(acctSeq[layer(ctx)])[moduleAddr(cpctypes.ModuleName) := (old(acctSeq[layer(ctx)][moduleAddr(cpctypes.ModuleName)]) + 1) % pow2(64)] && acctExists[layer(ctx)][moduleAddr(cpctypes.ModuleName)]
+//@   panics only_if !modExists(cpctypes.ModuleName)
+
+//@ func (k Keeper) DeployStakingCustomPrecompiledContract(ctx sdk.Context, stakingMeta cpctypes.StakingCustomPrecompiledContractMeta) (addr common.Address, err error)
+//@   requires k.storeKey != nil && k.cdc != nil
+//@   modifies kvHas[kvId(layer(ctx), payload(k.storeKey))], kvVal[kvId(layer(ctx), payload(k.storeKey))], evlog[payload(ctx.EventManager())]
+//@   ensures[C17.DeployStakingCustomPrecompiledContract_at_fixed_address] err == nil ==> (addr == cpctypes.CpcStakingFixedAddress && !old(kvHas[kvId(layer(ctx), payload(k.storeKey))][metaKeyB(cpctypes.CpcStakingFixedAddress)]) && kvHas[kvId(layer(ctx), payload(k.storeKey))][metaKeyB(cpctypes.CpcStakingFixedAddress)] && pbMetaType(kvVal[kvId(layer(ctx), payload(k.storeKey))][metaKeyB(cpctypes.CpcStakingFixedAddress)]) == 2 && pbMetaAddr(kvVal[kvId(layer(ctx), payload(k.storeKey))][metaKeyB(cpctypes.CpcStakingFixedAddress)]) == addrBytes(cpctypes.CpcStakingFixedAddress) && !pbMetaDisabled(kvVal[kvId(layer(ctx), payload(k.storeKey))][metaKeyB(cpctypes.CpcStakingFixedAddress)]))
+//@   ensures[C17.DeployStakingCustomPrecompiledContract_frame] (kvHas[kvId(layer(ctx), payload(k.storeKey))] == old(kvHas[kvId(layer(ctx), payload(k.storeKey))])[metaKeyB(cpctypes.CpcStakingFixedAddress) := kvHas[kvId(layer(ctx), payload(k.storeKey))][metaKeyB(cpctypes.CpcStakingFixedAddress)]] && kvVal[kvId(layer(ctx), payload(k.storeKey))] == old(kvVal[kvId(layer(ctx), payload(k.storeKey))])[metaKeyB(cpctypes.CpcStakingFixedAddress) := kvVal[kvId(layer(ctx), payload(k.storeKey))][metaKeyB(cpctypes.CpcStakingFixedAddress)]])
+//@   ensures[C17.DeployStakingCustomPrecompiledContract_failure_writes_nothing] err != nil ==> (kvHas[kvId(layer(ctx), payload(k.storeKey))] == old(kvHas[kvId(layer(ctx), payload(k.storeKey))]) && kvVal[kvId(layer(ctx), payload(k.storeKey))] == old(kvVal[kvId(layer(ctx), payload(k.storeKey))]))
+
+//@ func (k Keeper) DeployBech32CustomPrecompiledContract(ctx sdk.Context) (addr common.Address, err error)
+//@   requires k.storeKey != nil && k.cdc != nil
+//@   modifies kvHas[kvId(layer(ctx), payload(k.storeKey))], kvVal[kvId(layer(ctx), payload(k.storeKey))], evlog[payload(ctx.EventManager())]
+//@   ensures[C17.DeployBech32CustomPrecompiledContract_at_fixed_address] err == nil ==> (addr == cpctypes.CpcBech32FixedAddress && !old(kvHas[kvId(layer(ctx), payload(k.storeKey))][metaKeyB(cpctypes.CpcBech32FixedAddress)]) && kvHas[kvId(layer(ctx), payload(k.storeKey))][metaKeyB(cpctypes.CpcBech32FixedAddress)] && pbMetaType(kvVal[kvId(layer(ctx), payload(k.storeKey))][metaKeyB(cpctypes.CpcBech32FixedAddress)]) == 3 && pbMetaAddr(kvVal[kvId(layer(ctx), payload(k.storeKey))][metaKeyB(cpctypes.CpcBech32FixedAddress)]) == addrBytes(cpctypes.CpcBech32FixedAddress) && !pbMetaDisabled(kvVal[kvId(layer(ctx), payload(k.storeKey))][metaKeyB(cpctypes.CpcBech32FixedAddress)]))
+//@   ensures[C17.DeployBech32CustomPrecompiledContract_frame] (kvHas[kvId(layer(ctx), payload(k.storeKey))] == old(kvHas[kvId(layer(ctx), payload(k.storeKey))])[metaKeyB(cpctypes.CpcBech32FixedAddress) := kvHas[kvId(layer(ctx), payload(k.storeKey))][metaKeyB(cpctypes.CpcBech32FixedAddress)]] && kvVal[kvId(layer(ctx), payload(k.storeKey))] == old(kvVal[kvId(layer(ctx), payload(k.storeKey))])[metaKeyB(cpctypes.CpcBech32FixedAddress) := kvVal[kvId(layer(ctx), payload(k.storeKey))][metaKeyB(cpctypes.CpcBech32FixedAddress)]])
+//@   ensures[C17.DeployBech32CustomPrecompiledContract_failure_writes_nothing] err != nil ==> (kvHas[kvId(layer(ctx), payload(k.storeKey))] == old(kvHas[kvId(layer(ctx), payload(k.storeKey))]) && kvVal[kvId(layer(ctx), payload(k.storeKey))] == old(kvVal[kvId(layer(ctx), payload(k.storeKey))]))
+
+// DeployErc20CustomPrecompiledContract: at most one ERC-20 precompile per denomination (the reverse index entry must be
+// free), only for a denomination with positive supply; the record goes to the next dynamic address and the reverse index
+// entry denom -> address is written with it; nothing else in the store changes.
+//@ func (k Keeper) DeployErc20CustomPrecompiledContract(ctx sdk.Context, name string, erc20Meta cpctypes.Erc20CustomPrecompiledContractMeta) (addr common.Address, err error)
+//@   requires k.storeKey != nil && k.cdc != nil && k.bankKeeper != nil
+//@   modifies kvHas[kvId(layer(ctx), payload(k.storeKey))], kvVal[kvId(layer(ctx), payload(k.storeKey))], evlog[payload(ctx.EventManager())], acctExists[layer(ctx)], acctSeq[layer(ctx)], authVersion[layer(ctx)]
+//@   ensures[C17.one_per_denom] err == nil ==> !(old(kvHas[kvId(layer(ctx), payload(k.storeKey))][denomKeyB(erc20Meta.MinDenom)]) && blen(old(kvVal[kvId(layer(ctx), payload(k.storeKey))][denomKeyB(erc20Meta.MinDenom)])) != 0)
+//@   ensures[C17.positive_supply_only] err == nil ==> old(bankSupply[layer(ctx)][erc20Meta.MinDenom]) > 0
+//@   ensures[C17.erc20_meta_valid] err == nil ==> (erc20Meta.Symbol != "" && erc20Meta.Decimals <= 18 && erc20Meta.MinDenom != "" && erc20Meta.Symbol != erc20Meta.MinDenom)
+//@   ensures[C17.erc20_dynamic_address] err == nil ==> (addr == crypto.CreateAddress(cpctypes.CpcModuleAddress, old(acctSeq[layer(ctx)][moduleAddr(cpctypes.ModuleName)])) && !old(kvHas[kvId(layer(ctx), payload(k.storeKey))][metaKeyB(addr)]))
+//@   ensures[C17.erc20_record_and_index] err == nil ==> (kvHas[kvId(layer(ctx), payload(k.storeKey))][metaKeyB(addr)] && pbMetaType(kvVal[kvId(layer(ctx), payload(k.storeKey))][metaKeyB(addr)]) == 1 && pbMetaAddr(kvVal[kvId(layer(ctx), payload(k.storeKey))][metaKeyB(addr)]) == addrBytes(addr) && pbMetaName(kvVal[kvId(layer(ctx), payload(k.storeKey))][metaKeyB(addr)]) == name && !pbMetaDisabled(kvVal[kvId(layer(ctx), payload(k.storeKey))][metaKeyB(addr)]) && jsonErc20MinDenom(strBytes(pbMetaTyped(kvVal[kvId(layer(ctx), payload(k.storeKey))][metaKeyB(addr)]))) == erc20Meta.MinDenom && kvHas[kvId(layer(ctx), payload(k.storeKey))][denomKeyB(erc20Meta.MinDenom)] && kvVal[kvId(layer(ctx), payload(k.storeKey))][denomKeyB(erc20Meta.MinDenom)] == addrBytes(addr))
+//@   ensures[C17.erc20_deploy_frame] kvHas[kvId(layer(ctx), payload(k.storeKey))] == old(kvHas[kvId(layer(ctx), payload(k.storeKey))])[metaKeyB(crypto.CreateAddress(cpctypes.CpcModuleAddress, old(acctSeq[layer(ctx)][moduleAddr(cpctypes.ModuleName)]))) := kvHas[kvId(layer(ctx), payload(k.storeKey))][metaKeyB(crypto.CreateAddress(cpctypes.CpcModuleAddress, old(acctSeq[layer(ctx)][moduleAddr(cpctypes.ModuleName)])))]][denomKeyB(erc20Meta.MinDenom) := kvHas[kvId(layer(ctx), payload(k.storeKey))][denomKeyB(erc20Meta.MinDenom)]] && kvVal[kvId(layer(ctx), payload(k.storeKey))] == old(kvVal[kvId(layer(ctx), payload(k.storeKey))])[metaKeyB(crypto.CreateAddress(cpctypes.CpcModuleAddress, old(acctSeq[layer(ctx)][moduleAddr(cpctypes.ModuleName)]))) := kvVal[kvId(layer(ctx), payload(k.storeKey))][metaKeyB(crypto.CreateAddress(cpctypes.CpcModuleAddress, old(acctSeq[layer(ctx)][moduleAddr(cpctypes.ModuleName)])))]][denomKeyB(erc20Meta.MinDenom) := kvVal[kvId(layer(ctx), payload(k.storeKey))][denomKeyB(erc20Meta.MinDenom)]]
+
+//@ func (k Keeper) GetErc20CustomPrecompiledContractAddressByMinDenom(ctx sdk.Context, minDenom string) (addr *common.Address)
+//@   requires k.storeKey != nil
+//@   modifies nothing
+//@   ensures[C17.denom_index_view] (addr == nil) == !(kvHas[kvId(layer(ctx), payload(k.storeKey))][denomKeyB(minDenom)] && blen(kvVal[kvId(layer(ctx), payload(k.storeKey))][denomKeyB(minDenom)]) != 0)
+//@   ensures[C17.denom_index_value] (addr != nil && blen(kvVal[kvId(layer(ctx), payload(k.storeKey))][denomKeyB(minDenom)]) == 20) ==> *addr == bytesAddr(kvVal[kvId(layer(ctx), payload(k.storeKey))][denomKeyB(minDenom)])
+//@   panics never
+
+// msg_server.go — only an address on the stored whitelist deploys (C17); a request from anybody else fails before any write
+//@ import context "context"
+//@ func (k *msgServer) DeployErc20Contract(goCtx context.Context, req *cpctypes.MsgDeployErc20ContractRequest) (res *cpctypes.MsgDeployErc20ContractResponse, err error)
+//@   requires k != nil && req != nil && k.Keeper.storeKey != nil && k.Keeper.cdc != nil && k.Keeper.bankKeeper != nil
+//@   modifies kvHas[kvId(layer(sdk.UnwrapSDKContext(goCtx)), payload(k.Keeper.storeKey))], kvVal[kvId(layer(sdk.UnwrapSDKContext(goCtx)), payload(k.Keeper.storeKey))], evlog[payload(sdk.UnwrapSDKContext(goCtx).EventManager())], acctExists[layer(sdk.UnwrapSDKContext(goCtx))], acctSeq[layer(sdk.UnwrapSDKContext(goCtx))], authVersion[layer(sdk.UnwrapSDKContext(goCtx))]
+//@   ensures[C17.DeployErc20Contract_whitelisted_only] err == nil ==> (old(cpcParamsStored(kvHas[kvId(layer(sdk.UnwrapSDKContext(goCtx)), payload(k.Keeper.storeKey))], kvVal[kvId(layer(sdk.UnwrapSDKContext(goCtx)), payload(k.Keeper.storeKey))])) && (exists j int :: 0 <= j && j < pbParamsWLLen(old(cpcParamsDoc(kvHas[kvId(layer(sdk.UnwrapSDKContext(goCtx)), payload(k.Keeper.storeKey))], kvVal[kvId(layer(sdk.UnwrapSDKContext(goCtx)), payload(k.Keeper.storeKey))]))) && pbParamsWLAt(old(cpcParamsDoc(kvHas[kvId(layer(sdk.UnwrapSDKContext(goCtx)), payload(k.Keeper.storeKey))], kvVal[kvId(layer(sdk.UnwrapSDKContext(goCtx)), payload(k.Keeper.storeKey))])), j) == req.Authority))
+//@   ensures[C17.DeployErc20Contract_rejected_writes_nothing] !(old(cpcParamsStored(kvHas[kvId(layer(sdk.UnwrapSDKContext(goCtx)), payload(k.Keeper.storeKey))], kvVal[kvId(layer(sdk.UnwrapSDKContext(goCtx)), payload(k.Keeper.storeKey))])) && (exists j int :: 0 <= j && j < pbParamsWLLen(old(cpcParamsDoc(kvHas[kvId(layer(sdk.UnwrapSDKContext(goCtx)), payload(k.Keeper.storeKey))], kvVal[kvId(layer(sdk.UnwrapSDKContext(goCtx)), payload(k.Keeper.storeKey))]))) && pbParamsWLAt(old(cpcParamsDoc(kvHas[kvId(layer(sdk.UnwrapSDKContext(goCtx)), payload(k.Keeper.storeKey))], kvVal[kvId(layer(sdk.UnwrapSDKContext(goCtx)), payload(k.Keeper.storeKey))])), j) == req.Authority)) ==> (err != nil && (kvHas[kvId(layer(sdk.UnwrapSDKContext(goCtx)), payload(k.Keeper.storeKey))] == old(kvHas[kvId(layer(sdk.UnwrapSDKContext(goCtx)), payload(k.Keeper.storeKey))]) && kvVal[kvId(layer(sdk.UnwrapSDKContext(goCtx)), payload(k.Keeper.storeKey))] == old(kvVal[kvId(layer(sdk.UnwrapSDKContext(goCtx)), payload(k.Keeper.storeKey))])) && acctSeq[layer(sdk.UnwrapSDKContext(goCtx))] == old(acctSeq[layer(sdk.UnwrapSDKContext(goCtx))]))
+
+//@ func (k *msgServer) DeployStakingContract(goCtx context.Context, req *cpctypes.MsgDeployStakingContractRequest) (res *cpctypes.MsgDeployStakingContractResponse, err error)
+//@   requires k != nil && req != nil && k.Keeper.storeKey != nil && k.Keeper.cdc != nil && k.Keeper.bankKeeper != nil
+//@   modifies kvHas[kvId(layer(sdk.UnwrapSDKContext(goCtx)), payload(k.Keeper.storeKey))], kvVal[kvId(layer(sdk.UnwrapSDKContext(goCtx)), payload(k.Keeper.storeKey))], evlog[payload(sdk.UnwrapSDKContext(goCtx).EventManager())], acctExists[layer(sdk.UnwrapSDKContext(goCtx))], acctSeq[layer(sdk.UnwrapSDKContext(goCtx))], authVersion[layer(sdk.UnwrapSDKContext(goCtx))]
+//@   ensures[C17.DeployStakingContract_whitelisted_only] err == nil ==> (old(cpcParamsStored(kvHas[kvId(layer(sdk.UnwrapSDKContext(goCtx)), payload(k.Keeper.storeKey))], kvVal[kvId(layer(sdk.UnwrapSDKContext(goCtx)), payload(k.Keeper.storeKey))])) && (exists j int :: 0 <= j && j < pbParamsWLLen(old(cpcParamsDoc(kvHas[kvId(layer(sdk.UnwrapSDKContext(goCtx)), payload(k.Keeper.storeKey))], kvVal[kvId(layer(sdk.UnwrapSDKContext(goCtx)), payload(k.Keeper.storeKey))]))) && pbParamsWLAt(old(cpcParamsDoc(kvHas[kvId(layer(sdk.UnwrapSDKContext(goCtx)), payload(k.Keeper.storeKey))], kvVal[kvId(layer(sdk.UnwrapSDKContext(goCtx)), payload(k.Keeper.storeKey))])), j) == req.Authority))
+//@   ensures[C17.DeployStakingContract_rejected_writes_nothing] !(old(cpcParamsStored(kvHas[kvId(layer(sdk.UnwrapSDKContext(goCtx)), payload(k.Keeper.storeKey))], kvVal[kvId(layer(sdk.UnwrapSDKContext(goCtx)), payload(k.Keeper.storeKey))])) && (exists j int :: 0 <= j && j < pbParamsWLLen(old(cpcParamsDoc(kvHas[kvId(layer(sdk.UnwrapSDKContext(goCtx)), payload(k.Keeper.storeKey))], kvVal[kvId(layer(sdk.UnwrapSDKContext(goCtx)), payload(k.Keeper.storeKey))]))) && pbParamsWLAt(old(cpcParamsDoc(kvHas[kvId(layer(sdk.UnwrapSDKContext(goCtx)), payload(k.Keeper.storeKey))], kvVal[kvId(layer(sdk.UnwrapSDKContext(goCtx)), payload(k.Keeper.storeKey))])), j) == req.Authority)) ==> (err != nil && (kvHas[kvId(layer(sdk.UnwrapSDKContext(goCtx)), payload(k.Keeper.storeKey))] == old(kvHas[kvId(layer(sdk.UnwrapSDKContext(goCtx)), payload(k.Keeper.storeKey))]) && kvVal[kvId(layer(sdk.UnwrapSDKContext(goCtx)), payload(k.Keeper.storeKey))] == old(kvVal[kvId(layer(sdk.UnwrapSDKContext(goCtx)), payload(k.Keeper.storeKey))])) && acctSeq[layer(sdk.UnwrapSDKContext(goCtx))] == old(acctSeq[layer(sdk.UnwrapSDKContext(goCtx))]))
+
+//@ func (k *msgServer) UpdateParams(goCtx context.Context, req *cpctypes.MsgUpdateParams) (res *cpctypes.MsgUpdateParamsResponse, err error)
+//@   requires k != nil && req != nil && k.Keeper.storeKey != nil && k.Keeper.cdc != nil
+//@   modifies kvHas[kvId(layer(sdk.UnwrapSDKContext(goCtx)), payload(k.Keeper.storeKey))], kvVal[kvId(layer(sdk.UnwrapSDKContext(goCtx)), payload(k.Keeper.storeKey))]
+//@   ensures[C17.update_params_no_downgrade] err == nil ==> (old(cpcParamsVersion(kvHas[kvId(layer(sdk.UnwrapSDKContext(goCtx)), payload(k.Keeper.storeKey))], kvVal[kvId(layer(sdk.UnwrapSDKContext(goCtx)), payload(k.Keeper.storeKey))])) <= req.NewParams.ProtocolVersion && cpcParamsVersion(kvHas[kvId(layer(sdk.UnwrapSDKContext(goCtx)), payload(k.Keeper.storeKey))], kvVal[kvId(layer(sdk.UnwrapSDKContext(goCtx)), payload(k.Keeper.storeKey))]) == req.NewParams.ProtocolVersion)
+//@   ensures[C17.update_params_failure_writes_nothing] err != nil ==> (kvHas[kvId(layer(sdk.UnwrapSDKContext(goCtx)), payload(k.Keeper.storeKey))] == old(kvHas[kvId(layer(sdk.UnwrapSDKContext(goCtx)), payload(k.Keeper.storeKey))]) && kvVal[kvId(layer(sdk.UnwrapSDKContext(goCtx)), payload(k.Keeper.storeKey))] == old(kvVal[kvId(layer(sdk.UnwrapSDKContext(goCtx)), payload(k.Keeper.storeKey))]))
+//@   ensures[C17.update_params_frame] (kvHas[kvId(layer(sdk.UnwrapSDKContext(goCtx)), payload(k.Keeper.storeKey))] == old(kvHas[kvId(layer(sdk.UnwrapSDKContext(goCtx)), payload(k.Keeper.storeKey))])[b1(1) := kvHas[kvId(layer(sdk.UnwrapSDKContext(goCtx)), payload(k.Keeper.storeKey))][b1(1)]] && kvVal[kvId(layer(sdk.UnwrapSDKContext(goCtx)), payload(k.Keeper.storeKey))] == old(kvVal[kvId(layer(sdk.UnwrapSDKContext(goCtx)), payload(k.Keeper.storeKey))])[b1(1) := kvVal[kvId(layer(sdk.UnwrapSDKContext(goCtx)), payload(k.Keeper.storeKey))][b1(1)]])
+
+// The contract object of an ERC-20 precompile: built with an EMPTY decode cache (this establishes the cache invariant
+// that every executor requires) and the record it was given.
+//@ func NewErc20CustomPrecompiledContract(metadata cpctypes.CustomPrecompiledContractMeta, keeper Keeper) (c CustomPrecompiledContractI)
+//@   modifies nothing
+//@   ensures[C10.contract_object] typeof(c) == type(*erc20CustomPrecompiledContract) && fresh(payload(c)) && unbox(c, type(*erc20CustomPrecompiledContract)).cacheErc20Metadata == nil && unbox(c, type(*erc20CustomPrecompiledContract)).metadata.TypedMeta == metadata.TypedMeta && unbox(c, type(*erc20CustomPrecompiledContract)).metadata.Name == metadata.Name && unbox(c, type(*erc20CustomPrecompiledContract)).keeper.storeKey == keeper.storeKey && unbox(c, type(*erc20CustomPrecompiledContract)).keeper.bankKeeper == keeper.bankKeeper
+//@   ensures[C10.eleven_methods] len(unbox(c, type(*erc20CustomPrecompiledContract)).executors) == 11
+//@   panics never
+
+// NewCustomPrecompiledContract: a record of type 1 / 2 / 3 gives the ERC-20 / staking / bech32 contract object; any other
+// type panics (no contract object exists for an unknown type).
+//@ func NewCustomPrecompiledContract(metadata cpctypes.CustomPrecompiledContractMeta, keeper Keeper) (c CustomPrecompiledContractI)
+//@   ensures[C17.contract_of_type] (metadata.CustomPrecompiledType == 1 ==> typeof(c) == type(*erc20CustomPrecompiledContract)) && (metadata.CustomPrecompiledType == 2 ==> typeof(c) == type(*stakingCustomPrecompiledContract)) && (metadata.CustomPrecompiledType == 3 ==> typeof(c) == type(*bech32CustomPrecompiledContract))
+//@   ensures[C17.known_types_only] 1 <= metadata.CustomPrecompiledType && metadata.CustomPrecompiledType <= 3
+
+// ---------------------------------------------------------------------------------------------
+// precompiles_staking.go — read-only methods (C12 clause (b)): a method that declares ReadOnly() == true writes no
+// chain state (bank, auth, module store, staking, distribution), appends no log and emits no event — in ANY context.
+// Frame: `modifies nothing` / the contract object's decode cache only; the clause C12.ro_world_unchanged states it over the
+// whole ghost world.
+// ---------------------------------------------------------------------------------------------
+
+// rewardOf / rewardsOf / balanceOf read the pending rewards through the x/distribution gRPC querier on the live context.
+// Clause C12.ro_distribution_unchanged is the part of "a read-only method writes nothing" that concerns x/distribution:
+// it FAILS on this tree (finding F-cpc-2, docs/findings-cpc.md: the querier runs IncrementValidatorPeriod).
+//@ func (e stakingCustomPrecompiledContractRoRewardOf) Execute(caller corevm.ContractRef, contractAddr common.Address, input []byte, env cpcExecutorEnv) (ret []byte, err error)
+//@   requires e.contract != nil
+//@   modifies distVersion[layer(env.ctx)]
+//@   ensures[C12.ro_world_unchanged] (bankBal == old(bankBal) && bankSupply == old(bankSupply) && authVersion == old(authVersion) && evlog == old(evlog) && kvHas == old(kvHas) && kvVal == old(kvVal) && acctSeq == old(acctSeq) && acctExists == old(acctExists) && stakingVersion == old(stakingVersion) && sdbLogCount == old(sdbLogCount) && sdbLogAddr == old(sdbLogAddr) && sdbLogNTopics == old(sdbLogNTopics) && sdbLogT0 == old(sdbLogT0) && sdbLogT1 == old(sdbLogT1) && sdbLogT2 == old(sdbLogT2) && sdbLogT3 == old(sdbLogT3) && sdbLogData == old(sdbLogData))
+//@   ensures[C12.ro_distribution_unchanged] distVersion == old(distVersion)
+
+//@ func (e stakingCustomPrecompiledContractRoRewardsOf) Execute(caller corevm.ContractRef, contractAddr common.Address, input []byte, env cpcExecutorEnv) (ret []byte, err error)
+//@   requires e.contract != nil
+//@   modifies distVersion[layer(env.ctx)]
+//@   ensures[C12.ro_world_unchanged] (bankBal == old(bankBal) && bankSupply == old(bankSupply) && authVersion == old(authVersion) && evlog == old(evlog) && kvHas == old(kvHas) && kvVal == old(kvVal) && acctSeq == old(acctSeq) && acctExists == old(acctExists) && stakingVersion == old(stakingVersion) && sdbLogCount == old(sdbLogCount) && sdbLogAddr == old(sdbLogAddr) && sdbLogNTopics == old(sdbLogNTopics) && sdbLogT0 == old(sdbLogT0) && sdbLogT1 == old(sdbLogT1) && sdbLogT2 == old(sdbLogT2) && sdbLogT3 == old(sdbLogT3) && sdbLogData == old(sdbLogData))
+//@   ensures[C12.ro_distribution_unchanged] distVersion == old(distVersion)
+
+//@ func (e stakingCustomPrecompiledContractRoBalanceOf) Execute(caller corevm.ContractRef, contractAddr common.Address, input []byte, env cpcExecutorEnv) (ret []byte, err error)
+//@   requires e.rewardsOf.contract != nil && e.rewardsOf.contract.keeper.bankKeeper != nil
+//@   modifies distVersion[layer(env.ctx)]
+//@   ensures[C12.ro_world_unchanged] (bankBal == old(bankBal) && bankSupply == old(bankSupply) && authVersion == old(authVersion) && evlog == old(evlog) && kvHas == old(kvHas) && kvVal == old(kvVal) && acctSeq == old(acctSeq) && acctExists == old(acctExists) && stakingVersion == old(stakingVersion) && sdbLogCount == old(sdbLogCount) && sdbLogAddr == old(sdbLogAddr) && sdbLogNTopics == old(sdbLogNTopics) && sdbLogT0 == old(sdbLogT0) && sdbLogT1 == old(sdbLogT1) && sdbLogT2 == old(sdbLogT2) && sdbLogT3 == old(sdbLogT3) && sdbLogData == old(sdbLogData))
+//@   ensures[C12.ro_distribution_unchanged] distVersion == old(distVersion)
+
+// the remaining read-only staking methods and the ten bech32 methods (pure computations)
+//@ func (e stakingCustomPrecompiledContractRoName) Execute(caller corevm.ContractRef, contractAddr common.Address, input []byte, env cpcExecutorEnv) (ret []byte, err error)
+//@   requires e.contract != nil
+//@   modifies nothing
+//@   ensures[C12.ro_world_unchanged] (bankBal == old(bankBal) && bankSupply == old(bankSupply) && authVersion == old(authVersion) && evlog == old(evlog) && kvHas == old(kvHas) && kvVal == old(kvVal) && acctSeq == old(acctSeq) && acctExists == old(acctExists) && stakingVersion == old(stakingVersion) && distVersion == old(distVersion) && sdbLogCount == old(sdbLogCount) && sdbLogAddr == old(sdbLogAddr) && sdbLogNTopics == old(sdbLogNTopics) && sdbLogT0 == old(sdbLogT0) && sdbLogT1 == old(sdbLogT1) && sdbLogT2 == old(sdbLogT2) && sdbLogT3 == old(sdbLogT3) && sdbLogData == old(sdbLogData))
+
+//@ func (e stakingCustomPrecompiledContractRoSymbol) Execute(caller corevm.ContractRef, contractAddr common.Address, input []byte, env cpcExecutorEnv) (ret []byte, err error)
+//@   requires e.contract != nil
+//@   modifies e.contract.cacheStakingMetadata
+//@   ensures[C12.ro_world_unchanged] (bankBal == old(bankBal) && bankSupply == old(bankSupply) && authVersion == old(authVersion) && evlog == old(evlog) && kvHas == old(kvHas) && kvVal == old(kvVal) && acctSeq == old(acctSeq) && acctExists == old(acctExists) && stakingVersion == old(stakingVersion) && distVersion == old(distVersion) && sdbLogCount == old(sdbLogCount) && sdbLogAddr == old(sdbLogAddr) && sdbLogNTopics == old(sdbLogNTopics) && sdbLogT0 == old(sdbLogT0) && sdbLogT1 == old(sdbLogT1) && sdbLogT2 == old(sdbLogT2) && sdbLogT3 == old(sdbLogT3) && sdbLogData == old(sdbLogData))
+
+//@ func (e stakingCustomPrecompiledContractRoDecimals) Execute(caller corevm.ContractRef, contractAddr common.Address, input []byte, env cpcExecutorEnv) (ret []byte, err error)
+//@   requires e.contract != nil
+//@   modifies e.contract.cacheStakingMetadata
+//@   ensures[C12.ro_world_unchanged] (bankBal == old(bankBal) && bankSupply == old(bankSupply) && authVersion == old(authVersion) && evlog == old(evlog) && kvHas == old(kvHas) && kvVal == old(kvVal) && acctSeq == old(acctSeq) && acctExists == old(acctExists) && stakingVersion == old(stakingVersion) && distVersion == old(distVersion) && sdbLogCount == old(sdbLogCount) && sdbLogAddr == old(sdbLogAddr) && sdbLogNTopics == old(sdbLogNTopics) && sdbLogT0 == old(sdbLogT0) && sdbLogT1 == old(sdbLogT1) && sdbLogT2 == old(sdbLogT2) && sdbLogT3 == old(sdbLogT3) && sdbLogData == old(sdbLogData))
+
+// (delegatedValidators is NOT under contract: its loop builds a result slice with append; the engine havocs the element heap of a loop-carried slice, so the frame of pre-existing []common.Address backings cannot be shown)
+//@ func (e stakingCustomPrecompiledContractRoDelegationOf) Execute(caller corevm.ContractRef, contractAddr common.Address, input []byte, env cpcExecutorEnv) (ret []byte, err error)
+//@   requires e.contract != nil
+//@   modifies nothing
+//@   ensures[C12.ro_world_unchanged] (bankBal == old(bankBal) && bankSupply == old(bankSupply) && authVersion == old(authVersion) && evlog == old(evlog) && kvHas == old(kvHas) && kvVal == old(kvVal) && acctSeq == old(acctSeq) && acctExists == old(acctExists) && stakingVersion == old(stakingVersion) && distVersion == old(distVersion) && sdbLogCount == old(sdbLogCount) && sdbLogAddr == old(sdbLogAddr) && sdbLogNTopics == old(sdbLogNTopics) && sdbLogT0 == old(sdbLogT0) && sdbLogT1 == old(sdbLogT1) && sdbLogT2 == old(sdbLogT2) && sdbLogT3 == old(sdbLogT3) && sdbLogData == old(sdbLogData))
+
+//@ func (e stakingCustomPrecompiledContractRoTotalDelegationOf) Execute(caller corevm.ContractRef, contractAddr common.Address, input []byte, env cpcExecutorEnv) (ret []byte, err error)
+//@   requires e.contract != nil
+//@   modifies nothing
+//@   ensures[C12.ro_world_unchanged] (bankBal == old(bankBal) && bankSupply == old(bankSupply) && authVersion == old(authVersion) && evlog == old(evlog) && kvHas == old(kvHas) && kvVal == old(kvVal) && acctSeq == old(acctSeq) && acctExists == old(acctExists) && stakingVersion == old(stakingVersion) && distVersion == old(distVersion) && sdbLogCount == old(sdbLogCount) && sdbLogAddr == old(sdbLogAddr) && sdbLogNTopics == old(sdbLogNTopics) && sdbLogT0 == old(sdbLogT0) && sdbLogT1 == old(sdbLogT1) && sdbLogT2 == old(sdbLogT2) && sdbLogT3 == old(sdbLogT3) && sdbLogData == old(sdbLogData))
+
+//@ func (e bech32CustomPrecompiledContractRoEncodeAddress) Execute(caller corevm.ContractRef, contractAddr common.Address, input []byte, env cpcExecutorEnv) (ret []byte, err error)
+//@   modifies nothing
+//@   ensures[C12.ro_world_unchanged] (bankBal == old(bankBal) && bankSupply == old(bankSupply) && authVersion == old(authVersion) && evlog == old(evlog) && kvHas == old(kvHas) && kvVal == old(kvVal) && acctSeq == old(acctSeq) && acctExists == old(acctExists) && stakingVersion == old(stakingVersion) && distVersion == old(distVersion) && sdbLogCount == old(sdbLogCount) && sdbLogAddr == old(sdbLogAddr) && sdbLogNTopics == old(sdbLogNTopics) && sdbLogT0 == old(sdbLogT0) && sdbLogT1 == old(sdbLogT1) && sdbLogT2 == old(sdbLogT2) && sdbLogT3 == old(sdbLogT3) && sdbLogData == old(sdbLogData))
+
+//@ func (e bech32CustomPrecompiledContractRoEncode32BytesAddress) Execute(caller corevm.ContractRef, contractAddr common.Address, input []byte, env cpcExecutorEnv) (ret []byte, err error)
+//@   modifies nothing
+//@   ensures[C12.ro_world_unchanged] (bankBal == old(bankBal) && bankSupply == old(bankSupply) && authVersion == old(authVersion) && evlog == old(evlog) && kvHas == old(kvHas) && kvVal == old(kvVal) && acctSeq == old(acctSeq) && acctExists == old(acctExists) && stakingVersion == old(stakingVersion) && distVersion == old(distVersion) && sdbLogCount == old(sdbLogCount) && sdbLogAddr == old(sdbLogAddr) && sdbLogNTopics == old(sdbLogNTopics) && sdbLogT0 == old(sdbLogT0) && sdbLogT1 == old(sdbLogT1) && sdbLogT2 == old(sdbLogT2) && sdbLogT3 == old(sdbLogT3) && sdbLogData == old(sdbLogData))
+
+//@ func (e bech32CustomPrecompiledContractRoEncodeBytes) Execute(caller corevm.ContractRef, contractAddr common.Address, input []byte, env cpcExecutorEnv) (ret []byte, err error)
+//@   modifies nothing
+//@   ensures[C12.ro_world_unchanged] (bankBal == old(bankBal) && bankSupply == old(bankSupply) && authVersion == old(authVersion) && evlog == old(evlog) && kvHas == old(kvHas) && kvVal == old(kvVal) && acctSeq == old(acctSeq) && acctExists == old(acctExists) && stakingVersion == old(stakingVersion) && distVersion == old(distVersion) && sdbLogCount == old(sdbLogCount) && sdbLogAddr == old(sdbLogAddr) && sdbLogNTopics == old(sdbLogNTopics) && sdbLogT0 == old(sdbLogT0) && sdbLogT1 == old(sdbLogT1) && sdbLogT2 == old(sdbLogT2) && sdbLogT3 == old(sdbLogT3) && sdbLogData == old(sdbLogData))
+
+//@ func (e bech32CustomPrecompiledContractRoDecode) Execute(caller corevm.ContractRef, contractAddr common.Address, input []byte, env cpcExecutorEnv) (ret []byte, err error)
+//@   modifies nothing
+//@   ensures[C12.ro_world_unchanged] (bankBal == old(bankBal) && bankSupply == old(bankSupply) && authVersion == old(authVersion) && evlog == old(evlog) && kvHas == old(kvHas) && kvVal == old(kvVal) && acctSeq == old(acctSeq) && acctExists == old(acctExists) && stakingVersion == old(stakingVersion) && distVersion == old(distVersion) && sdbLogCount == old(sdbLogCount) && sdbLogAddr == old(sdbLogAddr) && sdbLogNTopics == old(sdbLogNTopics) && sdbLogT0 == old(sdbLogT0) && sdbLogT1 == old(sdbLogT1) && sdbLogT2 == old(sdbLogT2) && sdbLogT3 == old(sdbLogT3) && sdbLogData == old(sdbLogData))
+
+//@ func (e bech32CustomPrecompiledContractRoAccountAddrPrefix) Execute(caller corevm.ContractRef, contractAddr common.Address, input []byte, env cpcExecutorEnv) (ret []byte, err error)
+//@   modifies nothing
+//@   ensures[C12.ro_world_unchanged] (bankBal == old(bankBal) && bankSupply == old(bankSupply) && authVersion == old(authVersion) && evlog == old(evlog) && kvHas == old(kvHas) && kvVal == old(kvVal) && acctSeq == old(acctSeq) && acctExists == old(acctExists) && stakingVersion == old(stakingVersion) && distVersion == old(distVersion) && sdbLogCount == old(sdbLogCount) && sdbLogAddr == old(sdbLogAddr) && sdbLogNTopics == old(sdbLogNTopics) && sdbLogT0 == old(sdbLogT0) && sdbLogT1 == old(sdbLogT1) && sdbLogT2 == old(sdbLogT2) && sdbLogT3 == old(sdbLogT3) && sdbLogData == old(sdbLogData))
+
+//@ func (e bech32CustomPrecompiledContractRoValidatorAddrPrefix) Execute(caller corevm.ContractRef, contractAddr common.Address, input []byte, env cpcExecutorEnv) (ret []byte, err error)
+//@   modifies nothing
+//@   ensures[C12.ro_world_unchanged] (bankBal == old(bankBal) && bankSupply == old(bankSupply) && authVersion == old(authVersion) && evlog == old(evlog) && kvHas == old(kvHas) && kvVal == old(kvVal) && acctSeq == old(acctSeq) && acctExists == old(acctExists) && stakingVersion == old(stakingVersion) && distVersion == old(distVersion) && sdbLogCount == old(sdbLogCount) && sdbLogAddr == old(sdbLogAddr) && sdbLogNTopics == old(sdbLogNTopics) && sdbLogT0 == old(sdbLogT0) && sdbLogT1 == old(sdbLogT1) && sdbLogT2 == old(sdbLogT2) && sdbLogT3 == old(sdbLogT3) && sdbLogData == old(sdbLogData))
+
+//@ func (e bech32CustomPrecompiledContractRoConsensusAddrPrefix) Execute(caller corevm.ContractRef, contractAddr common.Address, input []byte, env cpcExecutorEnv) (ret []byte, err error)
+//@   modifies nothing
+//@   ensures[C12.ro_world_unchanged] (bankBal == old(bankBal) && bankSupply == old(bankSupply) && authVersion == old(authVersion) && evlog == old(evlog) && kvHas == old(kvHas) && kvVal == old(kvVal) && acctSeq == old(acctSeq) && acctExists == old(acctExists) && stakingVersion == old(stakingVersion) && distVersion == old(distVersion) && sdbLogCount == old(sdbLogCount) && sdbLogAddr == old(sdbLogAddr) && sdbLogNTopics == old(sdbLogNTopics) && sdbLogT0 == old(sdbLogT0) && sdbLogT1 == old(sdbLogT1) && sdbLogT2 == old(sdbLogT2) && sdbLogT3 == old(sdbLogT3) && sdbLogData == old(sdbLogData))
+
+//@ func (e bech32CustomPrecompiledContractRoAccountPubPrefix) Execute(caller corevm.ContractRef, contractAddr common.Address, input []byte, env cpcExecutorEnv) (ret []byte, err error)
+//@   modifies nothing
+//@   ensures[C12.ro_world_unchanged] (bankBal == old(bankBal) && bankSupply == old(bankSupply) && authVersion == old(authVersion) && evlog == old(evlog) && kvHas == old(kvHas) && kvVal == old(kvVal) && acctSeq == old(acctSeq) && acctExists == old(acctExists) && stakingVersion == old(stakingVersion) && distVersion == old(distVersion) && sdbLogCount == old(sdbLogCount) && sdbLogAddr == old(sdbLogAddr) && sdbLogNTopics == old(sdbLogNTopics) && sdbLogT0 == old(sdbLogT0) && sdbLogT1 == old(sdbLogT1) && sdbLogT2 == old(sdbLogT2) && sdbLogT3 == old(sdbLogT3) && sdbLogData == old(sdbLogData))
+
+//@ func (e bech32CustomPrecompiledContractRoValidatorPubPrefix) Execute(caller corevm.ContractRef, contractAddr common.Address, input []byte, env cpcExecutorEnv) (ret []byte, err error)
+//@   modifies nothing
+//@   ensures[C12.ro_world_unchanged] (bankBal == old(bankBal) && bankSupply == old(bankSupply) && authVersion == old(authVersion) && evlog == old(evlog) && kvHas == old(kvHas) && kvVal == old(kvVal) && acctSeq == old(acctSeq) && acctExists == old(acctExists) && stakingVersion == old(stakingVersion) && distVersion == old(distVersion) && sdbLogCount == old(sdbLogCount) && sdbLogAddr == old(sdbLogAddr) && sdbLogNTopics == old(sdbLogNTopics) && sdbLogT0 == old(sdbLogT0) && sdbLogT1 == old(sdbLogT1) && sdbLogT2 == old(sdbLogT2) && sdbLogT3 == old(sdbLogT3) && sdbLogData == old(sdbLogData))
+
+//@ func (e bech32CustomPrecompiledContractRoConsensusPubPrefix) Execute(caller corevm.ContractRef, contractAddr common.Address, input []byte, env cpcExecutorEnv) (ret []byte, err error)
+//@   modifies nothing
+//@   ensures[C12.ro_world_unchanged] (bankBal == old(bankBal) && bankSupply == old(bankSupply) && authVersion == old(authVersion) && evlog == old(evlog) && kvHas == old(kvHas) && kvVal == old(kvVal) && acctSeq == old(acctSeq) && acctExists == old(acctExists) && stakingVersion == old(stakingVersion) && distVersion == old(distVersion) && sdbLogCount == old(sdbLogCount) && sdbLogAddr == old(sdbLogAddr) && sdbLogNTopics == old(sdbLogNTopics) && sdbLogT0 == old(sdbLogT0) && sdbLogT1 == old(sdbLogT1) && sdbLogT2 == old(sdbLogT2) && sdbLogT3 == old(sdbLogT3) && sdbLogData == old(sdbLogData))
+
